@@ -2,7 +2,8 @@
 
 package future
 
-// Contracts for the future combinators (future_op.go) — property C06 — checked by /verif/govc.
+// Contracts for the future combinators (future_op.go, func_gen.go, applicative_gen.go) —
+// property C06 — checked by /verif/govc.
 //
 // Method.  By C05 a promise is assigned once and every callback registered on it runs exactly
 // once with that result; tasks given to the default executor are started with `go`.  The
@@ -12,49 +13,306 @@ package future
 // For every scenario: the derived future is NOT completed before the sources it depends on, IS
 // completed once they are and the pending tasks ran, and its value is the fp.Try expression of
 // the statement (left-to-right short-circuit), with each user function called as often as that
-// expression calls it.
+// expression calls it.  Completing a source or the derived future a second time is refused and
+// changes nothing.
+//
+// Helpers.  over1 / over2 / thenInner drive a combinator over one / two source promises (or a source
+// and the future handed out by a user function) in a given order of events and check the "not
+// earlier / as soon as" part; decided checks the value and the "exactly once" part.  User functions
+// of several arguments are given as g(tuple) so that the call trace shows the arguments; user
+// functions returning futures are closures that apply a symbolic function (for the trace) and hand
+// out the future of a promise of the scenario.  A second schedule is obtained with syncExec, an
+// executor that runs every task at once in the submitting thread (lemmas …Sync, LiftA{N}).
+//
+// What the code guarantees about waiting (all proved below): a failure of an earlier source decides
+// the result at once, without waiting for later sources (over2, stepOK); a failure of a later source
+// does not decide it while an earlier source is incomplete (the earlier one may fail too, and its
+// error is the result); a supplier / continuation is called only when everything before it has
+// succeeded, and never after a failure.
 
 //@ import "github.com/csgura/fp/promise"
 //@ import "github.com/csgura/fp/try"
+//@ import "github.com/csgura/fp/product"
+//@ import "github.com/csgura/fp/as"
+//@ import "github.com/csgura/fp/curried"
+//@ import "github.com/csgura/fp/hlist"
+//@ import "github.com/csgura/fp/iterator"
 //
 //@ ghost
+//@ // syncExec: an executor that runs the task at once, in the thread that submits it: another schedule than the
+//@ // FIFO queue of the default executor (the callbacks run nested inside Complete / OnComplete).
+//@ type syncExec struct{}
+//@
+//@ func (syncExec) ExecuteUnsafe(r fp.Runnable) { r.Run() }
+//@
 //@ func settled[T any](f fp.Future[T]) bool {
 //@ 	verifspec.RunSpawned()
 //@ 	return f.IsCompleted() && verifspec.Spawned() == 0
 //@ }
-//@ func mapScenario[T, U any](t fp.Try[T], f func(T) U, early bool) bool {
-//@ 	p := promise.New[T]()
-//@ 	if early {
-//@ 		p.Complete(t)
+//@ // failed: what the Try-level expression yields when its source t is a failure (the error unchanged)
+//@ func failed[U, T any](t fp.Try[T]) fp.Try[U] {
+//@ 	return try.Failure[U](t.Failed().Get())
+//@ }
+//@ // decided: r is complete with want, no task is pending, and completing r again is refused and changes nothing
+//@ func decided[U any](r fp.Future[U], want fp.Try[U], again fp.Try[U]) bool {
+//@ 	if !r.IsCompleted() || verifspec.Spawned() != 0 {
+//@ 		return false
 //@ 	}
-//@ 	r := Map(p.Future(), f)
+//@ 	if !verifspec.Eq(verifspec.W(r.Value()), verifspec.W(want)) {
+//@ 		return false
+//@ 	}
+//@ 	n := verifspec.TraceLen()
+//@ 	if fp.Promise[U](r).Complete(again) {
+//@ 		return false
+//@ 	}
+//@ 	verifspec.RunSpawned()
+//@ 	return verifspec.Eq(verifspec.W(r.Value()), verifspec.W(want)) && verifspec.TraceLen() == n && verifspec.Spawned() == 0
+//@ }
+//@ // over1: one source.  early: the source is complete before the combinator is built.
+//@ func over1[T, U any](t fp.Try[T], early bool, build func(fp.Future[T]) fp.Future[U]) (fp.Future[U], bool) {
+//@ 	p := promise.New[T]()
+//@ 	if early && !p.Complete(t) {
+//@ 		return fp.Future[U]{}, false
+//@ 	}
+//@ 	r := build(p.Future())
 //@ 	verifspec.RunSpawned()
 //@ 	if !early {
 //@ 		if r.IsCompleted() || verifspec.TraceLen() != 0 {
-//@ 			return false // completed before its source
+//@ 			return r, false // completed, or a user function called, before the source is complete
 //@ 		}
-//@ 		p.Complete(t)
+//@ 		if !p.Complete(t) {
+//@ 			return r, false
+//@ 		}
 //@ 	}
 //@ 	if !settled(r) {
+//@ 		return r, false
+//@ 	}
+//@ 	return r, !p.Failure(fp.ErrOptionEmpty) && verifspec.Spawned() == 0
+//@ }
+//@ // over2: two sources a, b where the Try expression looks at a first.
+//@ // order 0: a b build | 1: b build a | 2: a build b | 3: build a b | 4: build b a
+//@ // final=false: r may depend on more than a and b; its completion after both is left to the caller.
+//@ func over2x[A, B, U any](ta fp.Try[A], tb fp.Try[B], order int, final bool, build func(fp.Future[A], fp.Future[B]) fp.Future[U]) (fp.Future[U], bool) {
+//@ 	p := promise.New[A]()
+//@ 	q := promise.New[B]()
+//@ 	if order == 0 || order == 2 {
+//@ 		p.Complete(ta)
+//@ 	}
+//@ 	if order == 0 || order == 1 {
+//@ 		q.Complete(tb)
+//@ 	}
+//@ 	r := build(p.Future(), q.Future())
+//@ 	verifspec.RunSpawned()
+//@ 	if order == 4 {
+//@ 		if r.IsCompleted() || verifspec.TraceLen() != 0 {
+//@ 			return r, false
+//@ 		}
+//@ 		q.Complete(tb)
+//@ 		verifspec.RunSpawned()
+//@ 	}
+//@ 	if order == 1 || order == 3 || order == 4 {
+//@ 		if r.IsCompleted() || verifspec.TraceLen() != 0 {
+//@ 			return r, false // a is not complete: nothing is decided, whatever b is
+//@ 		}
+//@ 		p.Complete(ta)
+//@ 		verifspec.RunSpawned()
+//@ 	}
+//@ 	if order == 2 || order == 3 {
+//@ 		if ta.IsSuccess() && (r.IsCompleted() || verifspec.TraceLen() != 0) {
+//@ 			return r, false // b is needed and not complete
+//@ 		}
+//@ 		if !ta.IsSuccess() && !(r.IsCompleted() && verifspec.Spawned() == 0) {
+//@ 			return r, false // decided by the failure of a: must not wait for b
+//@ 		}
+//@ 		q.Complete(tb)
+//@ 	}
+//@ 	if !final {
+//@ 		verifspec.RunSpawned()
+//@ 		return r, verifspec.Spawned() == 0 && !p.Failure(fp.ErrOptionEmpty) && !q.Failure(fp.ErrOptionEmpty) && verifspec.Spawned() == 0
+//@ 	}
+//@ 	if !settled(r) {
+//@ 		return r, false
+//@ 	}
+//@ 	return r, !p.Failure(fp.ErrOptionEmpty) && !q.Failure(fp.ErrOptionEmpty) && verifspec.Spawned() == 0
+//@ }
+//@ func over2[A, B, U any](ta fp.Try[A], tb fp.Try[B], order int, build func(fp.Future[A], fp.Future[B]) fp.Future[U]) (fp.Future[U], bool) {
+//@ 	return over2x(ta, tb, order, true, build)
+//@ }
+//@
+//@ // thenInner: a source a, and a user function of its (successful) value that returns the future of the promise q.
+//@ // order 0: a q build | 1: q build a | 2: build a q.  pre: user calls the combinator makes while it is built.
+//@ func thenInner[T, V, U any](t fp.Try[T], tv fp.Try[V], order int, pre int, build func(a fp.Future[T], inner fp.Future[V]) fp.Future[U]) (fp.Future[U], bool) {
+//@ 	p := promise.New[T]()
+//@ 	q := promise.New[V]()
+//@ 	if order == 0 {
+//@ 		p.Complete(t)
+//@ 	}
+//@ 	if order == 0 || order == 1 {
+//@ 		q.Complete(tv)
+//@ 	}
+//@ 	r := build(p.Future(), q.Future())
+//@ 	verifspec.RunSpawned()
+//@ 	if order != 0 {
+//@ 		if r.IsCompleted() || verifspec.TraceLen() != pre {
+//@ 			return r, false // completed, or the user function called, before the source is complete
+//@ 		}
+//@ 		p.Complete(t)
+//@ 		verifspec.RunSpawned()
+//@ 	}
+//@ 	if order == 2 {
+//@ 		if t.IsSuccess() && r.IsCompleted() {
+//@ 			return r, false // the inner future is not complete yet
+//@ 		}
+//@ 		if !t.IsSuccess() && !(r.IsCompleted() && verifspec.Spawned() == 0) {
+//@ 			return r, false // decided by the failure of a
+//@ 		}
+//@ 		q.Complete(tv)
+//@ 	}
+//@ 	if !settled(r) {
+//@ 		return r, false
+//@ 	}
+//@ 	return r, !p.Failure(fp.ErrOptionEmpty) && !q.Failure(fp.ErrOptionEmpty) && verifspec.Spawned() == 0
+//@ }
+//@ // mapLike: combinators whose Try expression is  t.Map(v => g(mk(v)))
+//@ func mapLike[T, X, U any](t fp.Try[T], early bool, again fp.Try[U], g func(X) U, mk func(T) X, build func(fp.Future[T]) fp.Future[U]) bool {
+//@ 	r, ok := over1(t, early, build)
+//@ 	if !ok {
 //@ 		return false
 //@ 	}
 //@ 	if t.IsSuccess() {
-//@ 		once := verifspec.CalledOnce(f, t.Get()) // before the specification below applies f itself
-//@ 		return once && verifspec.Eq(verifspec.W(r.Value()), verifspec.W(try.Success(f(t.Get()))))
+//@ 		once := verifspec.CalledOnce(g, mk(t.Get())) // before the specification below applies g itself
+//@ 		return once && decided(r, try.Success(g(mk(t.Get()))), again)
 //@ 	}
-//@ 	return verifspec.Eq(verifspec.W(r.Value()), verifspec.W(try.Failure[U](t.Failed().Get()))) && verifspec.TraceLen() == 0
+//@ 	return verifspec.TraceLen() == 0 && decided(r, failed[U](t), again)
 //@ }
-//@ func flatMapScenario[T, U any](t fp.Try[T], tu fp.Try[U], order int) bool {
+//@ // flatMapLike: combinators whose Try expression is  t.FlatMap(v => { k(mk(v)); tu })
+//@ func flatMapLike[T, X, U any](t fp.Try[T], tu fp.Try[U], order int, again fp.Try[U], k func(X) int, mk func(T) X, build func(a fp.Future[T], inner fp.Future[U]) fp.Future[U]) bool {
+//@ 	r, ok := thenInner(t, tu, order, 0, build)
+//@ 	if !ok {
+//@ 		return false
+//@ 	}
+//@ 	if t.IsSuccess() {
+//@ 		return verifspec.CalledOnce(k, mk(t.Get())) && decided(r, tu, again)
+//@ 	}
+//@ 	return verifspec.TraceLen() == 0 && decided(r, failed[U](t), again)
+//@ }
+//@ func same[T any](v T) T { return v }
+//@ func optOf[T any](t fp.Try[T]) fp.Option[T] {
+//@ 	if t.IsSuccess() {
+//@ 		return fp.Some(t.Get())
+//@ 	}
+//@ 	return fp.None[T]()
+//@ }
+//@
+//@ // pending / early-decided checks for the N-source schemas: as long as no completed source has failed the
+//@ // result is not complete and calls user functions have been called; after a failure it is complete at once.
+//@ func notYet[R any](r fp.Future[R], calls int) bool {
+//@ 	return !r.IsCompleted() && verifspec.TraceLen() == calls
+//@ }
+//@ func stepOK[R any](r fp.Future[R], bad bool, calls int) bool {
+//@ 	if bad {
+//@ 		return r.IsCompleted() && verifspec.Spawned() == 0
+//@ 	}
+//@ 	return notYet(r, calls)
+//@ }
+//@ func pureScenario[T any](v T, e error, t fp.Try[T], o fp.Option[T], again fp.Try[T]) bool {
+//@ 	if !decided(Successful(v), try.Success(v), again) {
+//@ 		return false
+//@ 	}
+//@ 	if e != nil && !decided(Failed[T](e), try.Failure[T](e), again) {
+//@ 		return false
+//@ 	}
+//@ 	if !decided(FromTry(t), t, again) {
+//@ 		return false
+//@ 	}
+//@ 	return decided(FromOption(o), try.FromOption(o), again)
+//@ }
+//@ func mapScenario[T, U any](t fp.Try[T], f func(T) U, early bool, again fp.Try[U], variant int) bool {
+//@ 	return mapLike(t, early, again, f, same[T], func(a fp.Future[T]) fp.Future[U] {
+//@ 		if variant == 1 {
+//@ 			return Lift(f)(a)
+//@ 		}
+//@ 		if variant == 2 {
+//@ 			return Map(a, f, syncExec{})
+//@ 		}
+//@ 		return Map(a, f)
+//@ 	})
+//@ }
+//@ func replaceScenario[T, U any](t fp.Try[T], b U, early bool, again fp.Try[U]) bool {
+//@ 	r, ok := over1(t, early, func(a fp.Future[T]) fp.Future[U] { return Replace(a, b) })
+//@ 	if !ok {
+//@ 		return false
+//@ 	}
+//@ 	if t.IsSuccess() {
+//@ 		return decided(r, try.Success(b), again)
+//@ 	}
+//@ 	return decided(r, failed[U](t), again)
+//@ }
+//@ func transformScenario[T, U any](t fp.Try[T], f func(fp.Try[T]) fp.Try[U], early bool, again fp.Try[U]) bool {
+//@ 	r, ok := over1(t, early, func(a fp.Future[T]) fp.Future[U] { return Transform(a, f) })
+//@ 	if !ok {
+//@ 		return false
+//@ 	}
+//@ 	once := verifspec.CalledOnce(f, t)
+//@ 	return once && decided(r, f(t), again)
+//@ }
+//@ // variant 0: FlatMap | 1: LiftM | 2: FlatMap with the synchronous executor
+//@ func flatMapScenario[T, U any](t fp.Try[T], tu fp.Try[U], k func(T) int, order int, again fp.Try[U], variant int) bool {
+//@ 	return flatMapLike(t, tu, order, again, k, same[T], func(a fp.Future[T], inner fp.Future[U]) fp.Future[U] {
+//@ 		fn := func(v T) fp.Future[U] { k(v); return inner }
+//@ 		if variant == 1 {
+//@ 			return LiftM(fn)(a)
+//@ 		}
+//@ 		if variant == 2 {
+//@ 			return FlatMap(a, fn, syncExec{})
+//@ 		}
+//@ 		return FlatMap(a, fn)
+//@ 	})
+//@ }
+//@ func transformWithScenario[T, U any](t fp.Try[T], tu fp.Try[U], k func(fp.Try[T]) int, order int, again fp.Try[U]) bool {
 //@ 	p := promise.New[T]()
 //@ 	q := promise.New[U]()
 //@ 	if order == 0 {
 //@ 		p.Complete(t)
+//@ 	}
+//@ 	if order == 0 || order == 1 {
 //@ 		q.Complete(tu)
 //@ 	}
-//@ 	if order == 1 {
+//@ 	r := TransformWith(p.Future(), func(v fp.Try[T]) fp.Future[U] { k(v); return q.Future() })
+//@ 	verifspec.RunSpawned()
+//@ 	if order != 0 {
+//@ 		if r.IsCompleted() || verifspec.TraceLen() != 0 {
+//@ 			return false
+//@ 		}
+//@ 		p.Complete(t)
+//@ 		verifspec.RunSpawned()
+//@ 	}
+//@ 	if order == 2 {
+//@ 		if r.IsCompleted() {
+//@ 			return false // the inner future is not complete yet
+//@ 		}
 //@ 		q.Complete(tu)
 //@ 	}
-//@ 	r := FlatMap(p.Future(), func(T) fp.Future[U] { return q.Future() })
+//@ 	if !settled(r) || p.Failure(fp.ErrOptionEmpty) || q.Failure(fp.ErrOptionEmpty) {
+//@ 		return false
+//@ 	}
+//@ 	return verifspec.CalledOnce(k, t) && decided(r, tu, again)
+//@ }
+//@ // Flatten: the outer source yields (on success) the future of the inner promise q.
+//@ func flattenScenario[U any](outerOK bool, e error, tu fp.Try[U], order int, again fp.Try[U]) bool {
+//@ 	q := promise.New[U]()
+//@ 	t := try.Success(q.Future())
+//@ 	if !outerOK {
+//@ 		t = try.Failure[fp.Future[U]](e)
+//@ 	}
+//@ 	p := promise.New[fp.Future[U]]()
+//@ 	if order == 0 {
+//@ 		p.Complete(t)
+//@ 	}
+//@ 	if order == 0 || order == 1 {
+//@ 		q.Complete(tu)
+//@ 	}
+//@ 	r := Flatten(p.Future())
 //@ 	verifspec.RunSpawned()
 //@ 	if order != 0 {
 //@ 		if r.IsCompleted() {
@@ -64,42 +322,1917 @@ package future
 //@ 		verifspec.RunSpawned()
 //@ 	}
 //@ 	if order == 2 {
-//@ 		if t.IsSuccess() && r.IsCompleted() {
-//@ 			return false // the inner future is not complete yet
+//@ 		if outerOK && r.IsCompleted() {
+//@ 			return false
+//@ 		}
+//@ 		if !outerOK && !(r.IsCompleted() && verifspec.Spawned() == 0) {
+//@ 			return false
 //@ 		}
 //@ 		q.Complete(tu)
+//@ 	}
+//@ 	if !settled(r) || p.Complete(try.Failure[fp.Future[U]](fp.ErrOptionEmpty)) || q.Failure(fp.ErrOptionEmpty) {
+//@ 		return false
+//@ 	}
+//@ 	if outerOK {
+//@ 		return decided(r, tu, again)
+//@ 	}
+//@ 	return decided(r, try.Failure[U](e), again)
+//@ }
+//@ // variant 0: Map2 | 1: LiftA2 | 2: Map2 with the synchronous executor
+//@ func map2Scenario[A, B, U any](ta fp.Try[A], tb fp.Try[B], g func(fp.Tuple2[A, B]) U, order int, again fp.Try[U], variant int) bool {
+//@ 	r, ok := over2(ta, tb, order, func(a fp.Future[A], b fp.Future[B]) fp.Future[U] {
+//@ 		f := func(x A, y B) U { return g(product.Tuple2(x, y)) }
+//@ 		if variant == 1 {
+//@ 			return LiftA2(f)(a, b)
+//@ 		}
+//@ 		if variant == 2 {
+//@ 			return Map2(a, b, f, syncExec{})
+//@ 		}
+//@ 		return Map2(a, b, f)
+//@ 	})
+//@ 	if !ok {
+//@ 		return false
+//@ 	}
+//@ 	if !ta.IsSuccess() {
+//@ 		return verifspec.TraceLen() == 0 && decided(r, failed[U](ta), again)
+//@ 	}
+//@ 	if !tb.IsSuccess() {
+//@ 		return verifspec.TraceLen() == 0 && decided(r, failed[U](tb), again)
+//@ 	}
+//@ 	arg := product.Tuple2(ta.Get(), tb.Get())
+//@ 	once := verifspec.CalledOnce(g, arg)
+//@ 	return once && decided(r, try.Success(g(arg)), again)
+//@ }
+//@ func zipScenario[A, B any](ta fp.Try[A], tb fp.Try[B], order int, again fp.Try[fp.Tuple2[A, B]]) bool {
+//@ 	r, ok := over2(ta, tb, order, func(a fp.Future[A], b fp.Future[B]) fp.Future[fp.Tuple2[A, B]] { return Zip(a, b) })
+//@ 	if !ok {
+//@ 		return false
+//@ 	}
+//@ 	if !ta.IsSuccess() {
+//@ 		return decided(r, failed[fp.Tuple2[A, B]](ta), again)
+//@ 	}
+//@ 	if !tb.IsSuccess() {
+//@ 		return decided(r, failed[fp.Tuple2[A, B]](tb), again)
+//@ 	}
+//@ 	return decided(r, try.Success(product.Tuple2(ta.Get(), tb.Get())), again)
+//@ }
+//@ // mode 0: a b c build | 1: build a b c | 2: build c b a | 3: build b a c
+//@ func zip3Scenario[A, B, C any](ta fp.Try[A], tb fp.Try[B], tc fp.Try[C], mode int, again fp.Try[fp.Tuple3[A, B, C]]) bool {
+//@ 	pa := promise.New[A]()
+//@ 	pb := promise.New[B]()
+//@ 	pc := promise.New[C]()
+//@ 	if mode == 0 {
+//@ 		pa.Complete(ta)
+//@ 		pb.Complete(tb)
+//@ 		pc.Complete(tc)
+//@ 	}
+//@ 	r := Zip3(pa.Future(), pb.Future(), pc.Future())
+//@ 	verifspec.RunSpawned()
+//@ 	if mode == 1 {
+//@ 		if r.IsCompleted() {
+//@ 			return false
+//@ 		}
+//@ 		pa.Complete(ta)
+//@ 		verifspec.RunSpawned()
+//@ 		if r.IsCompleted() != !ta.IsSuccess() {
+//@ 			return false // decided exactly when a failed
+//@ 		}
+//@ 		pb.Complete(tb)
+//@ 		verifspec.RunSpawned()
+//@ 		if r.IsCompleted() != (!ta.IsSuccess() || !tb.IsSuccess()) {
+//@ 			return false
+//@ 		}
+//@ 		pc.Complete(tc)
+//@ 	}
+//@ 	if mode == 2 {
+//@ 		if r.IsCompleted() {
+//@ 			return false
+//@ 		}
+//@ 		pc.Complete(tc)
+//@ 		verifspec.RunSpawned()
+//@ 		if r.IsCompleted() {
+//@ 			return false
+//@ 		}
+//@ 		pb.Complete(tb)
+//@ 		verifspec.RunSpawned()
+//@ 		if r.IsCompleted() {
+//@ 			return false // even if b or c failed: the result is the failure of a if a fails
+//@ 		}
+//@ 		pa.Complete(ta)
+//@ 	}
+//@ 	if mode == 3 {
+//@ 		pb.Complete(tb)
+//@ 		verifspec.RunSpawned()
+//@ 		if r.IsCompleted() {
+//@ 			return false
+//@ 		}
+//@ 		pa.Complete(ta)
+//@ 		verifspec.RunSpawned()
+//@ 		if r.IsCompleted() != (!ta.IsSuccess() || !tb.IsSuccess()) {
+//@ 			return false
+//@ 		}
+//@ 		pc.Complete(tc)
+//@ 	}
+//@ 	if !settled(r) || pa.Failure(fp.ErrOptionEmpty) || pb.Failure(fp.ErrOptionEmpty) || pc.Failure(fp.ErrOptionEmpty) {
+//@ 		return false
+//@ 	}
+//@ 	if !ta.IsSuccess() {
+//@ 		return decided(r, failed[fp.Tuple3[A, B, C]](ta), again)
+//@ 	}
+//@ 	if !tb.IsSuccess() {
+//@ 		return decided(r, failed[fp.Tuple3[A, B, C]](tb), again)
+//@ 	}
+//@ 	if !tc.IsSuccess() {
+//@ 		return decided(r, failed[fp.Tuple3[A, B, C]](tc), again)
+//@ 	}
+//@ 	return decided(r, try.Success(product.Tuple3(ta.Get(), tb.Get(), tc.Get())), again)
+//@ }
+//@ func tryOfFunc[T, U any](fok bool, e error, f fp.Func1[T, U]) fp.Try[fp.Func1[T, U]] {
+//@ 	if fok {
+//@ 		return try.Success(f)
+//@ 	}
+//@ 	return try.Failure[fp.Func1[T, U]](e)
+//@ }
+//@ func apScenario[T, U any](fok bool, e error, f fp.Func1[T, U], ta fp.Try[T], order int, again fp.Try[U]) bool {
+//@ 	r, ok := over2(tryOfFunc(fok, e, f), ta, order, func(a fp.Future[fp.Func1[T, U]], b fp.Future[T]) fp.Future[U] { return Ap(a, b) })
+//@ 	if !ok {
+//@ 		return false
+//@ 	}
+//@ 	if !fok {
+//@ 		return verifspec.TraceLen() == 0 && decided(r, try.Failure[U](e), again)
+//@ 	}
+//@ 	if !ta.IsSuccess() {
+//@ 		return verifspec.TraceLen() == 0 && decided(r, failed[U](ta), again)
+//@ 	}
+//@ 	once := verifspec.CalledOnce(f, ta.Get())
+//@ 	return once && decided(r, try.Success(f(ta.Get())), again)
+//@ }
+//@ // ApFunc: the supplier (which applies s(7) and hands out the future of the inner promise) is called
+//@ // only once the function future has succeeded, and exactly once.
+//@ func apFuncScenario[T, U any](fok bool, e error, f fp.Func1[T, U], ta fp.Try[T], s func(int) int, order int, again fp.Try[U]) bool {
+//@ 	r, ok := thenInner(tryOfFunc(fok, e, f), ta, order, 0, func(a fp.Future[fp.Func1[T, U]], inner fp.Future[T]) fp.Future[U] {
+//@ 		return ApFunc(a, func() fp.Future[T] { s(7); return inner })
+//@ 	})
+//@ 	if !ok {
+//@ 		return false
+//@ 	}
+//@ 	if !fok {
+//@ 		return verifspec.TraceLen() == 0 && decided(r, try.Failure[U](e), again)
+//@ 	}
+//@ 	if !ta.IsSuccess() {
+//@ 		return verifspec.CalledOnce(s, 7) && decided(r, failed[U](ta), again)
+//@ 	}
+//@ 	tr := verifspec.TraceLen() == 2 && verifspec.TraceCall(0, s, 7) && verifspec.TraceCall(1, f, ta.Get())
+//@ 	return tr && decided(r, try.Success(f(ta.Get())), again)
+//@ }
+//@ func withScenario[A, B any](a0 A, tb fp.Try[B], g func(fp.Tuple2[A, B]) A, early bool, again fp.Try[A]) bool {
+//@ 	return mapLike(tb, early, again, g, func(b B) fp.Tuple2[A, B] { return product.Tuple2(a0, b) }, func(fb fp.Future[B]) fp.Future[A] {
+//@ 		return With(func(a A, b B) A { return g(product.Tuple2(a, b)) }, fb)(a0)
+//@ 	})
+//@ }
+//@ func liftM2Scenario[A, B, U any](ta fp.Try[A], tb fp.Try[B], tu fp.Try[U], k func(fp.Tuple2[A, B]) int, order int, innerEarly bool, again fp.Try[U]) bool {
+//@ 	q := promise.New[U]()
+//@ 	if innerEarly {
+//@ 		q.Complete(tu)
+//@ 	}
+//@ 	r, ok := over2x(ta, tb, order, false, func(a fp.Future[A], b fp.Future[B]) fp.Future[U] {
+//@ 		return LiftM2(func(x A, y B) fp.Future[U] { k(product.Tuple2(x, y)); return q.Future() })(a, b)
+//@ 	})
+//@ 	if !ok {
+//@ 		return false
+//@ 	}
+//@ 	if !ta.IsSuccess() {
+//@ 		return verifspec.TraceLen() == 0 && decided(r, failed[U](ta), again)
+//@ 	}
+//@ 	if !tb.IsSuccess() {
+//@ 		return verifspec.TraceLen() == 0 && decided(r, failed[U](tb), again)
+//@ 	}
+//@ 	if !innerEarly {
+//@ 		if r.IsCompleted() {
+//@ 			return false // the future returned by the user function is not complete yet
+//@ 		}
+//@ 		q.Complete(tu)
+//@ 		if !settled(r) {
+//@ 			return false
+//@ 		}
+//@ 	}
+//@ 	if q.Failure(fp.ErrOptionEmpty) {
+//@ 		return false
+//@ 	}
+//@ 	return verifspec.CalledOnce(k, product.Tuple2(ta.Get(), tb.Get())) && decided(r, tu, again)
+//@ }
+//@ // Compose(f1, f2)(a0): f1 is applied when the composed function is, f2 when the future of f1 has succeeded.
+//@ func composeScenario[A, T, U any](a0 A, t fp.Try[T], tu fp.Try[U], k1 func(A) int, k2 func(T) int, order int, two bool, again fp.Try[U]) bool {
+//@ 	r, ok := thenInner(t, tu, order, 1, func(a fp.Future[T], inner fp.Future[U]) fp.Future[U] {
+//@ 		f1 := func(x A) fp.Future[T] { k1(x); return a }
+//@ 		f2 := func(v T) fp.Future[U] { k2(v); return inner }
+//@ 		if two {
+//@ 			return Compose2(f1, f2)(a0)
+//@ 		}
+//@ 		return Compose(f1, f2)(a0)
+//@ 	})
+//@ 	if !ok || !verifspec.TraceCall(0, k1, a0) {
+//@ 		return false
+//@ 	}
+//@ 	if t.IsSuccess() {
+//@ 		return verifspec.TraceLen() == 2 && verifspec.TraceCall(1, k2, t.Get()) && decided(r, tu, again)
+//@ 	}
+//@ 	return verifspec.TraceLen() == 1 && decided(r, failed[U](t), again)
+//@ }
+//@ func composeTryScenario[A, T, U any](a0 A, f1 func(A) fp.Try[T], tu fp.Try[U], k2 func(T) int, early bool, again fp.Try[U]) bool {
+//@ 	q := promise.New[U]()
+//@ 	if early {
+//@ 		q.Complete(tu)
+//@ 	}
+//@ 	r := ComposeTry(f1, func(v T) fp.Future[U] { k2(v); return q.Future() })(a0)
+//@ 	c0 := verifspec.CalledOnce(f1, a0) // f1 is applied when the composed function is
+//@ 	verifspec.RunSpawned()
+//@ 	done1 := r.IsCompleted() && verifspec.Spawned() == 0
+//@ 	if !early {
+//@ 		q.Complete(tu)
+//@ 	}
+//@ 	if !settled(r) || q.Failure(fp.ErrOptionEmpty) {
+//@ 		return false
+//@ 	}
+//@ 	n := verifspec.TraceLen()
+//@ 	t := f1(a0) // the specification's own application: trace index n
+//@ 	if t.IsSuccess() {
+//@ 		if !early && done1 {
+//@ 			return false // completed before the inner future
+//@ 		}
+//@ 		return c0 && n == 2 && verifspec.TraceCall(1, k2, t.Get()) && decided(r, tu, again)
+//@ 	}
+//@ 	return c0 && done1 && n == 1 && decided(r, failed[U](t), again)
+//@ }
+//@ func composeOptionScenario[A, T, U any](a0 A, f1 func(A) fp.Option[T], tu fp.Try[U], k2 func(T) int, early bool, again fp.Try[U]) bool {
+//@ 	q := promise.New[U]()
+//@ 	if early {
+//@ 		q.Complete(tu)
+//@ 	}
+//@ 	r := ComposeOption(f1, func(v T) fp.Future[U] { k2(v); return q.Future() })(a0)
+//@ 	c0 := verifspec.CalledOnce(f1, a0)
+//@ 	verifspec.RunSpawned()
+//@ 	done1 := r.IsCompleted() && verifspec.Spawned() == 0
+//@ 	if !early {
+//@ 		q.Complete(tu)
+//@ 	}
+//@ 	if !settled(r) || q.Failure(fp.ErrOptionEmpty) {
+//@ 		return false
+//@ 	}
+//@ 	n := verifspec.TraceLen()
+//@ 	o := f1(a0)
+//@ 	if o.IsDefined() {
+//@ 		if !early && done1 {
+//@ 			return false
+//@ 		}
+//@ 		return c0 && n == 2 && verifspec.TraceCall(1, k2, o.Get()) && decided(r, tu, again)
+//@ 	}
+//@ 	return c0 && done1 && n == 1 && decided(r, try.Failure[U](fp.ErrOptionEmpty), again)
+//@ }
+//@ func composePureScenario[A, B any](a0 A, f func(A) B, again fp.Try[B]) bool {
+//@ 	r := ComposePure(f)(a0)
+//@ 	once := verifspec.CalledOnce(f, a0)
+//@ 	return once && decided(r, try.Success(f(a0)), again)
+//@ }
+//@ func flapScenario[A, R any](fok bool, e error, f fp.Func1[A, R], a0 A, early bool, again fp.Try[R]) bool {
+//@ 	r, ok := over1(tryOfFunc(fok, e, f), early, func(tf fp.Future[fp.Func1[A, R]]) fp.Future[R] { return Flap(tf)(a0) })
+//@ 	if !ok {
+//@ 		return false
+//@ 	}
+//@ 	if !fok {
+//@ 		return verifspec.TraceLen() == 0 && decided(r, try.Failure[R](e), again)
+//@ 	}
+//@ 	once := verifspec.CalledOnce(f, a0)
+//@ 	return once && decided(r, try.Success(f(a0)), again)
+//@ }
+//@ func flap2Scenario[A, B, R any](fok bool, e error, g func(fp.Tuple2[A, B]) R, a0 A, b0 B, early bool, again fp.Try[R]) bool {
+//@ 	f := func(a A) fp.Func1[B, R] { return func(b B) R { return g(product.Tuple2(a, b)) } }
+//@ 	r, ok := over1(tryOfFunc[A, fp.Func1[B, R]](fok, e, f), early, func(tf fp.Future[fp.Func1[A, fp.Func1[B, R]]]) fp.Future[R] { return Flap2(tf)(a0)(b0) })
+//@ 	if !ok {
+//@ 		return false
+//@ 	}
+//@ 	if !fok {
+//@ 		return verifspec.TraceLen() == 0 && decided(r, try.Failure[R](e), again)
+//@ 	}
+//@ 	once := verifspec.CalledOnce(g, product.Tuple2(a0, b0))
+//@ 	return once && decided(r, try.Success(g(product.Tuple2(a0, b0))), again)
+//@ }
+//@ // variant 0: FlapMap(f, ta)(b0) | 1: Method1(ta, f)(b0)
+//@ func flapMapScenario[A, B, R any](ta fp.Try[A], b0 B, g func(fp.Tuple2[A, B]) R, early bool, again fp.Try[R], variant int) bool {
+//@ 	return mapLike(ta, early, again, g, func(a A) fp.Tuple2[A, B] { return product.Tuple2(a, b0) }, func(fa fp.Future[A]) fp.Future[R] {
+//@ 		f := func(a A, b B) R { return g(product.Tuple2(a, b)) }
+//@ 		if variant == 1 {
+//@ 			return Method1(fa, f)(b0)
+//@ 		}
+//@ 		return FlapMap(f, fa)(b0)
+//@ 	})
+//@ }
+//@ func method2Scenario[A, B, C, R any](ta fp.Try[A], b0 B, c0 C, g func(fp.Tuple3[A, B, C]) R, early bool, again fp.Try[R]) bool {
+//@ 	return mapLike(ta, early, again, g, func(a A) fp.Tuple3[A, B, C] { return product.Tuple3(a, b0, c0) }, func(fa fp.Future[A]) fp.Future[R] {
+//@ 		return Method2(fa, func(a A, b B, c C) R { return g(product.Tuple3(a, b, c)) })(b0, c0)
+//@ 	})
+//@ }
+//@ // variant 0: FlatFlapMap(f, ta)(b0) | 1: FlatMethod1(ta, f)(b0)
+//@ func flatFlapMapScenario[A, B, R any](ta fp.Try[A], b0 B, tr fp.Try[R], k func(fp.Tuple2[A, B]) int, order int, again fp.Try[R], variant int) bool {
+//@ 	return flatMapLike(ta, tr, order, again, k, func(a A) fp.Tuple2[A, B] { return product.Tuple2(a, b0) }, func(fa fp.Future[A], inner fp.Future[R]) fp.Future[R] {
+//@ 		f := func(a A, b B) fp.Future[R] { k(product.Tuple2(a, b)); return inner }
+//@ 		if variant == 1 {
+//@ 			return FlatMethod1(fa, f)(b0)
+//@ 		}
+//@ 		return FlatFlapMap(f, fa)(b0)
+//@ 	})
+//@ }
+//@ func flatMethod2Scenario[A, B, C, R any](ta fp.Try[A], b0 B, c0 C, tr fp.Try[R], k func(fp.Tuple3[A, B, C]) int, order int, again fp.Try[R]) bool {
+//@ 	return flatMapLike(ta, tr, order, again, k, func(a A) fp.Tuple3[A, B, C] { return product.Tuple3(a, b0, c0) }, func(fa fp.Future[A], inner fp.Future[R]) fp.Future[R] {
+//@ 		return FlatMethod2(fa, func(a A, b B, c C) fp.Future[R] { k(product.Tuple3(a, b, c)); return inner })(b0, c0)
+//@ 	})
+//@ }
+//@ // Apply / Apply2 / Func0: nothing happens before the task runs; then f has been called exactly once and the
+//@ // future is complete: Success(f()) on a normal return, the error on an error return, and a Failure whose
+//@ // error exposes the panic value (try.Panic) when f panics.
+//@ func isPanicFailure[T any](v fp.Try[T]) bool {
+//@ 	if !v.IsFailure() {
+//@ 		return false
+//@ 	}
+//@ 	pe, ok := v.Failed().Get().(try.Panic)
+//@ 	return ok && pe.Panic() != nil
+//@ }
+//@ func applyScenario[T any](f func() T, again fp.Try[T]) bool {
+//@ 	r := Apply(f)
+//@ 	if r.IsCompleted() || verifspec.TraceLen() != 0 || verifspec.Spawned() != 1 {
+//@ 		return false
+//@ 	}
+//@ 	if !settled(r) || verifspec.TraceLen() != 1 {
+//@ 		return false
+//@ 	}
+//@ 	v := r.Value()
+//@ 	if fp.Promise[T](r).Complete(again) {
+//@ 		return false
+//@ 	}
+//@ 	return (!Panics(f()) ==> Eq(v, try.Success(f())) && Eq(r.Value(), v)) && (Panics(f()) ==> isPanicFailure(v) && isPanicFailure(r.Value()))
+//@ }
+//@ func apply2Scenario[T any](f func() (T, error), again fp.Try[T], variant int) bool {
+//@ 	r := fp.Future[T]{}
+//@ 	if variant == 0 {
+//@ 		r = Apply2(f)
+//@ 	} else {
+//@ 		r = Func0(f)(fp.Unit{})
+//@ 	}
+//@ 	if r.IsCompleted() || verifspec.TraceLen() != 0 || verifspec.Spawned() != 1 {
+//@ 		return false
+//@ 	}
+//@ 	if !settled(r) || verifspec.TraceLen() != 1 {
+//@ 		return false
+//@ 	}
+//@ 	v := r.Value()
+//@ 	if fp.Promise[T](r).Complete(again) {
+//@ 		return false
+//@ 	}
+//@ 	return (!Panics(verifspec.P2(f())) ==> Eq(v, try.Apply(f())) && Eq(r.Value(), v)) && (Panics(verifspec.P2(f())) ==> isPanicFailure(v) && isPanicFailure(r.Value()))
+//@ }
+//@ func applyPanicValue[T any](pv any, again fp.Try[T]) bool {
+//@ 	r := Apply(func() T { panic(pv) })
+//@ 	r2 := Apply2(func() (T, error) { panic(pv) })
+//@ 	if r.IsCompleted() || r2.IsCompleted() {
+//@ 		return false
+//@ 	}
+//@ 	if !settled(r) || !settled(r2) {
+//@ 		return false
+//@ 	}
+//@ 	if fp.Promise[T](r).Complete(again) || fp.Promise[T](r2).Complete(again) {
+//@ 		return false
+//@ 	}
+//@ 	return r.Value().IsFailure() && r.Value().Failed().Get().(try.Panic).Panic() == pv && r2.Value().IsFailure() && r2.Value().Failed().Get().(try.Panic).Panic() == pv
+//@ }
+//@ func applyNormal[T any](v T, err error, again fp.Try[T]) bool {
+//@ 	r := Apply(func() T { return v })
+//@ 	r2 := Apply2(func() (T, error) { return v, err })
+//@ 	if r.IsCompleted() || r2.IsCompleted() {
+//@ 		return false
+//@ 	}
+//@ 	if !settled(r) || !settled(r2) {
+//@ 		return false
+//@ 	}
+//@ 	return decided(r, try.Success(v), again) && decided(r2, try.Apply(v, err), again)
+//@ }
+//@ end
+//
+//@ lemma futurePure[T any](v T, e error, t fp.Try[T], o fp.Option[T], again fp.Try[T])
+//@   prop C06
+//@   ensures pureScenario(v, e, t, o, again)
+//
+//@ lemma futureMap[T, U any](t fp.Try[T], f func(T) U, early bool, again fp.Try[U])
+//@   prop C06 C02
+//@   ensures mapScenario(t, f, early, again, 0)
+//@   tag Map
+//@   ensures mapScenario(t, f, early, again, 1)
+//@   tag Lift
+//@   ensures mapScenario(t, f, early, again, 2)
+//@   tag synchronousExecutor
+//
+//@ lemma futureReplace[T, U any](t fp.Try[T], b U, early bool, again fp.Try[U])
+//@   prop C06 C02
+//@   ensures replaceScenario(t, b, early, again)
+//
+//@ lemma futureTransform[T, U any](t fp.Try[T], f func(fp.Try[T]) fp.Try[U], early bool, again fp.Try[U])
+//@   prop C06
+//@   ensures transformScenario(t, f, early, again)
+//
+//@ lemma futureFlatMap[T, U any](t fp.Try[T], tu fp.Try[U], k func(T) int, again fp.Try[U])
+//@   prop C06 C02
+//@   ensures flatMapScenario(t, tu, k, 0, again, 0)
+//@   tag bothCompleteBeforeBuild
+//@   ensures flatMapScenario(t, tu, k, 1, again, 0)
+//@   tag innerFirst
+//@   ensures flatMapScenario(t, tu, k, 2, again, 0)
+//@   tag outerFirst
+//
+//@ lemma futureFlatMapSync[T, U any](t fp.Try[T], tu fp.Try[U], k func(T) int, again fp.Try[U])
+//@   prop C06 C02
+//@   ensures flatMapScenario(t, tu, k, 0, again, 2)
+//@   tag bothCompleteBeforeBuild
+//@   ensures flatMapScenario(t, tu, k, 1, again, 2)
+//@   tag innerFirst
+//@   ensures flatMapScenario(t, tu, k, 2, again, 2)
+//@   tag outerFirst
+//
+//@ lemma futureLiftM[T, U any](t fp.Try[T], tu fp.Try[U], k func(T) int, again fp.Try[U])
+//@   prop C06 C02
+//@   ensures flatMapScenario(t, tu, k, 0, again, 1)
+//@   tag bothCompleteBeforeBuild
+//@   ensures flatMapScenario(t, tu, k, 1, again, 1)
+//@   tag innerFirst
+//@   ensures flatMapScenario(t, tu, k, 2, again, 1)
+//@   tag outerFirst
+//
+//@ lemma futureTransformWith[T, U any](t fp.Try[T], tu fp.Try[U], k func(fp.Try[T]) int, again fp.Try[U])
+//@   prop C06
+//@   ensures transformWithScenario(t, tu, k, 0, again)
+//@   tag bothCompleteBeforeBuild
+//@   ensures transformWithScenario(t, tu, k, 1, again)
+//@   tag innerFirst
+//@   ensures transformWithScenario(t, tu, k, 2, again)
+//@   tag outerFirst
+//
+//@ lemma futureFlatten[U any](outerOK bool, e error, tu fp.Try[U], again fp.Try[U])
+//@   prop C06 C02
+//@   requires e != nil
+//@   ensures flattenScenario(outerOK, e, tu, 0, again)
+//@   tag bothCompleteBeforeBuild
+//@   ensures flattenScenario(outerOK, e, tu, 1, again)
+//@   tag innerFirst
+//@   ensures flattenScenario(outerOK, e, tu, 2, again)
+//@   tag outerFirst
+//
+//@ lemma futureMap2[A, B, U any](ta fp.Try[A], tb fp.Try[B], g func(fp.Tuple2[A, B]) U, again fp.Try[U])
+//@   prop C06 C02
+//@   ensures map2Scenario(ta, tb, g, 0, again, 0)
+//@   tag bothCompleteBeforeBuild
+//@   ensures map2Scenario(ta, tb, g, 1, again, 0)
+//@   tag secondBeforeBuild
+//@   ensures map2Scenario(ta, tb, g, 2, again, 0)
+//@   tag firstBeforeBuild
+//@   ensures map2Scenario(ta, tb, g, 3, again, 0)
+//@   tag firstThenSecond
+//@   ensures map2Scenario(ta, tb, g, 4, again, 0)
+//@   tag secondThenFirst
+//
+//@ lemma futureMap2Sync[A, B, U any](ta fp.Try[A], tb fp.Try[B], g func(fp.Tuple2[A, B]) U, again fp.Try[U])
+//@   prop C06 C02
+//@   ensures map2Scenario(ta, tb, g, 0, again, 2)
+//@   tag bothCompleteBeforeBuild
+//@   ensures map2Scenario(ta, tb, g, 3, again, 2)
+//@   tag firstThenSecond
+//@   ensures map2Scenario(ta, tb, g, 4, again, 2)
+//@   tag secondThenFirst
+//
+//@ lemma futureLiftA2[A, B, U any](ta fp.Try[A], tb fp.Try[B], g func(fp.Tuple2[A, B]) U, again fp.Try[U])
+//@   prop C06 C02
+//@   ensures map2Scenario(ta, tb, g, 0, again, 1)
+//@   tag bothCompleteBeforeBuild
+//@   ensures map2Scenario(ta, tb, g, 1, again, 1)
+//@   tag secondBeforeBuild
+//@   ensures map2Scenario(ta, tb, g, 2, again, 1)
+//@   tag firstBeforeBuild
+//@   ensures map2Scenario(ta, tb, g, 3, again, 1)
+//@   tag firstThenSecond
+//@   ensures map2Scenario(ta, tb, g, 4, again, 1)
+//@   tag secondThenFirst
+//
+//@ lemma futureZip[A, B any](ta fp.Try[A], tb fp.Try[B], again fp.Try[fp.Tuple2[A, B]])
+//@   prop C06 C02
+//@   ensures zipScenario(ta, tb, 0, again)
+//@   tag bothCompleteBeforeBuild
+//@   ensures zipScenario(ta, tb, 1, again)
+//@   tag secondBeforeBuild
+//@   ensures zipScenario(ta, tb, 2, again)
+//@   tag firstBeforeBuild
+//@   ensures zipScenario(ta, tb, 3, again)
+//@   tag firstThenSecond
+//@   ensures zipScenario(ta, tb, 4, again)
+//@   tag secondThenFirst
+//
+//@ lemma futureZip3[A, B, C any](ta fp.Try[A], tb fp.Try[B], tc fp.Try[C], again fp.Try[fp.Tuple3[A, B, C]])
+//@   prop C06 C02
+//@   ensures zip3Scenario(ta, tb, tc, 0, again)
+//@   tag allCompleteBeforeBuild
+//@   ensures zip3Scenario(ta, tb, tc, 1, again)
+//@   tag inOrder
+//@   ensures zip3Scenario(ta, tb, tc, 2, again)
+//@   tag reverseOrder
+//@   ensures zip3Scenario(ta, tb, tc, 3, again)
+//@   tag secondFirstThird
+//
+//@ lemma futureAp[T, U any](fok bool, e error, f fp.Func1[T, U], ta fp.Try[T], again fp.Try[U])
+//@   prop C06 C02
+//@   requires e != nil
+//@   ensures apScenario(fok, e, f, ta, 0, again)
+//@   tag bothCompleteBeforeBuild
+//@   ensures apScenario(fok, e, f, ta, 1, again)
+//@   tag argumentBeforeBuild
+//@   ensures apScenario(fok, e, f, ta, 2, again)
+//@   tag functionBeforeBuild
+//@   ensures apScenario(fok, e, f, ta, 3, again)
+//@   tag functionThenArgument
+//@   ensures apScenario(fok, e, f, ta, 4, again)
+//@   tag argumentThenFunction
+//
+//@ lemma futureApFunc[T, U any](fok bool, e error, f fp.Func1[T, U], ta fp.Try[T], s func(int) int, again fp.Try[U])
+//@   prop C06 C02
+//@   requires e != nil
+//@   ensures apFuncScenario(fok, e, f, ta, s, 0, again)
+//@   tag bothCompleteBeforeBuild
+//@   ensures apFuncScenario(fok, e, f, ta, s, 1, again)
+//@   tag suppliedFirst
+//@   ensures apFuncScenario(fok, e, f, ta, s, 2, again)
+//@   tag functionFirst
+//
+//@ lemma futureWith[A, B any](a0 A, tb fp.Try[B], g func(fp.Tuple2[A, B]) A, early bool, again fp.Try[A])
+//@   prop C06 C02
+//@   ensures withScenario(a0, tb, g, early, again)
+//
+//@ lemma futureLiftM2[A, B, U any](ta fp.Try[A], tb fp.Try[B], tu fp.Try[U], k func(fp.Tuple2[A, B]) int, again fp.Try[U])
+//@   prop C06 C02
+//@   ensures liftM2Scenario(ta, tb, tu, k, 0, false, again)
+//@   tag sourcesBeforeBuildInnerLast
+//@   ensures liftM2Scenario(ta, tb, tu, k, 1, false, again)
+//@   tag secondBeforeBuildInnerLast
+//@   ensures liftM2Scenario(ta, tb, tu, k, 2, false, again)
+//@   tag firstBeforeBuildInnerLast
+//@   ensures liftM2Scenario(ta, tb, tu, k, 3, false, again)
+//@   tag firstSecondInner
+//@   ensures liftM2Scenario(ta, tb, tu, k, 4, false, again)
+//@   tag secondFirstInner
+//@   ensures liftM2Scenario(ta, tb, tu, k, 0, true, again)
+//@   tag allCompleteBeforeBuild
+//@   ensures liftM2Scenario(ta, tb, tu, k, 3, true, again)
+//@   tag innerFirstSecond
+//@   ensures liftM2Scenario(ta, tb, tu, k, 4, true, again)
+//@   tag innerSecondFirst
+//
+//@ lemma futureCompose[A, T, U any](a0 A, t fp.Try[T], tu fp.Try[U], k1 func(A) int, k2 func(T) int, two bool, again fp.Try[U])
+//@   prop C06 C02
+//@   ensures composeScenario(a0, t, tu, k1, k2, 0, two, again)
+//@   tag bothCompleteBeforeBuild
+//@   ensures composeScenario(a0, t, tu, k1, k2, 1, two, again)
+//@   tag innerFirst
+//@   ensures composeScenario(a0, t, tu, k1, k2, 2, two, again)
+//@   tag outerFirst
+//
+//@ lemma futureComposeTry[A, T, U any](a0 A, f1 func(A) fp.Try[T], tu fp.Try[U], k2 func(T) int, early bool, again fp.Try[U])
+//@   prop C06 C02
+//@   ensures composeTryScenario(a0, f1, tu, k2, early, again)
+//
+//@ lemma futureComposeOption[A, T, U any](a0 A, f1 func(A) fp.Option[T], tu fp.Try[U], k2 func(T) int, early bool, again fp.Try[U])
+//@   prop C06 C02
+//@   ensures composeOptionScenario(a0, f1, tu, k2, early, again)
+//
+//@ lemma futureComposePure[A, B any](a0 A, f func(A) B, again fp.Try[B])
+//@   prop C06
+//@   ensures composePureScenario(a0, f, again)
+//
+//@ lemma futureFlap[A, R any](fok bool, e error, f fp.Func1[A, R], a0 A, early bool, again fp.Try[R])
+//@   prop C06 C02
+//@   requires e != nil
+//@   ensures flapScenario(fok, e, f, a0, early, again)
+//
+//@ lemma futureFlap2[A, B, R any](fok bool, e error, g func(fp.Tuple2[A, B]) R, a0 A, b0 B, early bool, again fp.Try[R])
+//@   prop C06 C02
+//@   requires e != nil
+//@   ensures flap2Scenario(fok, e, g, a0, b0, early, again)
+//
+//@ lemma futureFlapMap[A, B, R any](ta fp.Try[A], b0 B, g func(fp.Tuple2[A, B]) R, early bool, again fp.Try[R])
+//@   prop C06 C02
+//@   ensures flapMapScenario(ta, b0, g, early, again, 0)
+//@   tag FlapMap
+//@   ensures flapMapScenario(ta, b0, g, early, again, 1)
+//@   tag Method1
+//
+//@ lemma futureMethod2[A, B, C, R any](ta fp.Try[A], b0 B, c0 C, g func(fp.Tuple3[A, B, C]) R, early bool, again fp.Try[R])
+//@   prop C06 C02
+//@   ensures method2Scenario(ta, b0, c0, g, early, again)
+//
+//@ lemma futureFlatFlapMap[A, B, R any](ta fp.Try[A], b0 B, tr fp.Try[R], k func(fp.Tuple2[A, B]) int, again fp.Try[R])
+//@   prop C06 C02
+//@   ensures flatFlapMapScenario(ta, b0, tr, k, 0, again, 0)
+//@   tag bothCompleteBeforeBuild
+//@   ensures flatFlapMapScenario(ta, b0, tr, k, 1, again, 0)
+//@   tag innerFirst
+//@   ensures flatFlapMapScenario(ta, b0, tr, k, 2, again, 0)
+//@   tag outerFirst
+//
+//@ lemma futureFlatMethod1[A, B, R any](ta fp.Try[A], b0 B, tr fp.Try[R], k func(fp.Tuple2[A, B]) int, again fp.Try[R])
+//@   prop C06 C02
+//@   ensures flatFlapMapScenario(ta, b0, tr, k, 0, again, 1)
+//@   tag bothCompleteBeforeBuild
+//@   ensures flatFlapMapScenario(ta, b0, tr, k, 1, again, 1)
+//@   tag innerFirst
+//@   ensures flatFlapMapScenario(ta, b0, tr, k, 2, again, 1)
+//@   tag outerFirst
+//
+//@ lemma futureFlatMethod2[A, B, C, R any](ta fp.Try[A], b0 B, c0 C, tr fp.Try[R], k func(fp.Tuple3[A, B, C]) int, again fp.Try[R])
+//@   prop C06 C02
+//@   ensures flatMethod2Scenario(ta, b0, c0, tr, k, 0, again)
+//@   tag bothCompleteBeforeBuild
+//@   ensures flatMethod2Scenario(ta, b0, c0, tr, k, 1, again)
+//@   tag innerFirst
+//@   ensures flatMethod2Scenario(ta, b0, c0, tr, k, 2, again)
+//@   tag outerFirst
+//
+//@ lemma futureApply[T any](f func() T, again fp.Try[T])
+//@   prop C06 C02
+//@   ensures applyScenario(f, again)
+//@   tag alwaysCompletes
+//
+//@ lemma futureApply2[T any](f func() (T, error), again fp.Try[T])
+//@   prop C06 C02
+//@   ensures apply2Scenario(f, again, 0)
+//@   tag alwaysCompletes
+//@   ensures apply2Scenario(f, again, 1)
+//@   tag Func0
+//
+//@ lemma futureApplyPanicValue[T any](pv any, again fp.Try[T])
+//@   prop C06 C02
+//@   requires pv != nil
+//@   ensures applyPanicValue(pv, again)
+//
+//@ lemma futureApplyNormalReturn[T any](v T, err error, again fp.Try[T])
+//@   prop C06 C02
+//@   ensures applyNormal(v, err, again)
+// ---------------------------------------------------------------------------------------------
+// Sequence / Traverse: these loop over their input, so the lemmas below use literal inputs of two or
+// three elements and `option unroll`: bounded stand-ins, not proofs for every length.
+// mode 0: all complete before build | 1: built, first to last | 2: built, last to first | 3: built, 2nd 1st 3rd
+//
+//@ ghost
+//@ func drive3[T, R any](r fp.Future[R], p1, p2, p3 fp.Promise[T], t1, t2, t3 fp.Try[T], mode int, calls int) bool {
+//@ 	if mode == 1 {
+//@ 		if !notYet(r, calls) {
+//@ 			return false
+//@ 		}
+//@ 		p1.Complete(t1)
+//@ 		verifspec.RunSpawned()
+//@ 		if !stepOK(r, !t1.IsSuccess(), calls) {
+//@ 			return false
+//@ 		}
+//@ 		p2.Complete(t2)
+//@ 		verifspec.RunSpawned()
+//@ 		if !stepOK(r, !t1.IsSuccess() || !t2.IsSuccess(), calls) {
+//@ 			return false
+//@ 		}
+//@ 		p3.Complete(t3)
+//@ 	}
+//@ 	if mode == 2 {
+//@ 		if !notYet(r, calls) {
+//@ 			return false
+//@ 		}
+//@ 		p3.Complete(t3)
+//@ 		verifspec.RunSpawned()
+//@ 		if !notYet(r, calls) {
+//@ 			return false
+//@ 		}
+//@ 		p2.Complete(t2)
+//@ 		verifspec.RunSpawned()
+//@ 		if !notYet(r, calls) {
+//@ 			return false // even if the second or third failed: the first decides first
+//@ 		}
+//@ 		p1.Complete(t1)
+//@ 	}
+//@ 	if mode == 3 {
+//@ 		if !notYet(r, calls) {
+//@ 			return false
+//@ 		}
+//@ 		p2.Complete(t2)
+//@ 		verifspec.RunSpawned()
+//@ 		if !notYet(r, calls) {
+//@ 			return false
+//@ 		}
+//@ 		p1.Complete(t1)
+//@ 		verifspec.RunSpawned()
+//@ 		if !stepOK(r, !t1.IsSuccess() || !t2.IsSuccess(), calls) {
+//@ 			return false
+//@ 		}
+//@ 		p3.Complete(t3)
 //@ 	}
 //@ 	if !settled(r) {
 //@ 		return false
 //@ 	}
-//@ 	if t.IsSuccess() {
-//@ 		return verifspec.Eq(verifspec.W(r.Value()), verifspec.W(tu))
-//@ 	}
-//@ 	return verifspec.Eq(verifspec.W(r.Value()), verifspec.W(try.Failure[U](t.Failed().Get())))
+//@ 	return !p1.Failure(fp.ErrOptionEmpty) && !p2.Failure(fp.ErrOptionEmpty) && !p3.Failure(fp.ErrOptionEmpty) && verifspec.Spawned() == 0
 //@ }
-//@ func applyScenario[T any](f func() T) bool {
-//@ 	r := Apply(f)
-//@ 	if r.IsCompleted() || verifspec.TraceLen() != 0 {
+//@ func sequence3Scenario[T any](t1, t2, t3 fp.Try[T], mode int, again fp.Try[[]T]) bool {
+//@ 	p1 := promise.New[T]()
+//@ 	p2 := promise.New[T]()
+//@ 	p3 := promise.New[T]()
+//@ 	if mode == 0 {
+//@ 		p1.Complete(t1)
+//@ 		p2.Complete(t2)
+//@ 		p3.Complete(t3)
+//@ 	}
+//@ 	r := Sequence([]fp.Future[T]{p1.Future(), p2.Future(), p3.Future()})
+//@ 	verifspec.RunSpawned()
+//@ 	if !drive3(r, p1, p2, p3, t1, t2, t3, mode, 0) {
 //@ 		return false
 //@ 	}
-//@ 	return settled(r)
+//@ 	if !t1.IsSuccess() {
+//@ 		return decided(r, failed[[]T](t1), again)
+//@ 	}
+//@ 	if !t2.IsSuccess() {
+//@ 		return decided(r, failed[[]T](t2), again)
+//@ 	}
+//@ 	if !t3.IsSuccess() {
+//@ 		return decided(r, failed[[]T](t3), again)
+//@ 	}
+//@ 	return decided(r, try.Success([]T{t1.Get(), t2.Get(), t3.Get()}), again) // input order
+//@ }
+//@ func sequenceEmptyScenario[T any](again fp.Try[[]T]) bool {
+//@ 	r := Sequence([]fp.Future[T]{})
+//@ 	return settled(r) && decided(r, try.Success([]T{}), again)
+//@ }
+//@ func sequenceIterator2Scenario[T any](t1, t2 fp.Try[T], order int) bool {
+//@ 	r, ok := over2(t1, t2, order, func(a fp.Future[T], b fp.Future[T]) fp.Future[fp.Iterator[T]] {
+//@ 		return SequenceIterator(iterator.FromSeq(fp.Seq[fp.Future[T]]{a, b}))
+//@ 	})
+//@ 	if !ok {
+//@ 		return false
+//@ 	}
+//@ 	v := r.Value()
+//@ 	if !t1.IsSuccess() {
+//@ 		return v.IsFailure() && v.Failed().Get() == t1.Failed().Get()
+//@ 	}
+//@ 	if !t2.IsSuccess() {
+//@ 		return v.IsFailure() && v.Failed().Get() == t2.Failed().Get()
+//@ 	}
+//@ 	return v.IsSuccess() && verifspec.Eq(verifspec.W(fp.Seq[T](v.Get().ToSeq())), verifspec.W(fp.Seq[T]{t1.Get(), t2.Get()}))
+//@ }
+//@ // traverse over three elements: the user function applies k (trace) and hands out the futures of p1, p2, p3 in call order.
+//@ // It is applied to the next element only when the future for the previous one has succeeded.
+//@ // variant 0: TraverseSeq | 1: TraverseSeqFunc
+//@ func traverseSeq3Scenario[T, U any](x1, x2, x3 T, t1, t2, t3 fp.Try[U], k func(T) int, mode int, variant int, again fp.Try[fp.Seq[U]]) bool {
+//@ 	p1 := promise.New[U]()
+//@ 	p2 := promise.New[U]()
+//@ 	p3 := promise.New[U]()
+//@ 	if mode == 0 {
+//@ 		p1.Complete(t1)
+//@ 		p2.Complete(t2)
+//@ 		p3.Complete(t3)
+//@ 	}
+//@ 	n := 0
+//@ 	fn := func(x T) fp.Future[U] {
+//@ 		k(x)
+//@ 		n = n + 1
+//@ 		if n == 1 {
+//@ 			return p1.Future()
+//@ 		}
+//@ 		if n == 2 {
+//@ 			return p2.Future()
+//@ 		}
+//@ 		return p3.Future()
+//@ 	}
+//@ 	r := fp.Future[fp.Seq[U]]{}
+//@ 	if variant == 0 {
+//@ 		r = TraverseSeq(fp.Seq[T]{x1, x2, x3}, fn)
+//@ 	} else {
+//@ 		r = TraverseSeqFunc(fn)(fp.Seq[T]{x1, x2, x3})
+//@ 	}
+//@ 	verifspec.RunSpawned()
+//@ 	if mode == 1 {
+//@ 		if !(notYet(r, 1) && verifspec.TraceCall(0, k, x1)) {
+//@ 			return false
+//@ 		}
+//@ 		p1.Complete(t1)
+//@ 		verifspec.RunSpawned()
+//@ 		if t1.IsSuccess() && !(notYet(r, 2) && verifspec.TraceCall(1, k, x2)) {
+//@ 			return false
+//@ 		}
+//@ 		if !t1.IsSuccess() && !(r.IsCompleted() && verifspec.TraceLen() == 1) {
+//@ 			return false
+//@ 		}
+//@ 		p2.Complete(t2)
+//@ 		verifspec.RunSpawned()
+//@ 		if t1.IsSuccess() && t2.IsSuccess() && !(notYet(r, 3) && verifspec.TraceCall(2, k, x3)) {
+//@ 			return false
+//@ 		}
+//@ 		p3.Complete(t3)
+//@ 	}
+//@ 	if mode == 2 {
+//@ 		if !notYet(r, 1) {
+//@ 			return false
+//@ 		}
+//@ 		p3.Complete(t3)
+//@ 		verifspec.RunSpawned()
+//@ 		if !notYet(r, 1) {
+//@ 			return false
+//@ 		}
+//@ 		p2.Complete(t2)
+//@ 		verifspec.RunSpawned()
+//@ 		if !notYet(r, 1) {
+//@ 			return false
+//@ 		}
+//@ 		p1.Complete(t1)
+//@ 	}
+//@ 	if !settled(r) || p1.Failure(fp.ErrOptionEmpty) || p2.Failure(fp.ErrOptionEmpty) || p3.Failure(fp.ErrOptionEmpty) {
+//@ 		return false
+//@ 	}
+//@ 	if !verifspec.TraceCall(0, k, x1) {
+//@ 		return false
+//@ 	}
+//@ 	if !t1.IsSuccess() {
+//@ 		return verifspec.TraceLen() == 1 && decided(r, failed[fp.Seq[U]](t1), again)
+//@ 	}
+//@ 	if !verifspec.TraceCall(1, k, x2) {
+//@ 		return false
+//@ 	}
+//@ 	if !t2.IsSuccess() {
+//@ 		return verifspec.TraceLen() == 2 && decided(r, failed[fp.Seq[U]](t2), again)
+//@ 	}
+//@ 	if !verifspec.TraceCall(2, k, x3) {
+//@ 		return false
+//@ 	}
+//@ 	if !t3.IsSuccess() {
+//@ 		return verifspec.TraceLen() == 3 && decided(r, failed[fp.Seq[U]](t3), again)
+//@ 	}
+//@ 	return verifspec.TraceLen() == 3 && decided(r, try.Success(fp.Seq[U]{t1.Get(), t2.Get(), t3.Get()}), again)
+//@ }
+//@ // two elements.  variant 0: TraverseSlice | 1: TraverseSliceFunc | 2: Traverse | 3: TraverseFunc (the last two yield an iterator).
+//@ // order 0: both complete before build | 3: built, first, second | 4: built, second, first
+//@ func traverse2Scenario[T, U any](x1, x2 T, t1, t2 fp.Try[U], k func(T) int, order int, variant int) bool {
+//@ 	p1 := promise.New[U]()
+//@ 	p2 := promise.New[U]()
+//@ 	if order == 0 {
+//@ 		p1.Complete(t1)
+//@ 		p2.Complete(t2)
+//@ 	}
+//@ 	n := 0
+//@ 	fn := func(x T) fp.Future[U] {
+//@ 		k(x)
+//@ 		n = n + 1
+//@ 		if n == 1 {
+//@ 			return p1.Future()
+//@ 		}
+//@ 		return p2.Future()
+//@ 	}
+//@ 	rs := fp.Future[[]U]{}
+//@ 	ri := fp.Future[fp.Iterator[U]]{}
+//@ 	if variant == 0 {
+//@ 		rs = TraverseSlice([]T{x1, x2}, fn)
+//@ 	}
+//@ 	if variant == 1 {
+//@ 		rs = TraverseSliceFunc(fn)([]T{x1, x2})
+//@ 	}
+//@ 	if variant == 2 {
+//@ 		ri = Traverse(iterator.FromSeq(fp.Seq[T]{x1, x2}), fn)
+//@ 	}
+//@ 	if variant == 3 {
+//@ 		ri = TraverseFunc(fn)(iterator.FromSeq(fp.Seq[T]{x1, x2}))
+//@ 	}
+//@ 	verifspec.RunSpawned()
+//@ 	if order == 4 {
+//@ 		if rs.IsCompleted() || ri.IsCompleted() || verifspec.TraceLen() != 1 {
+//@ 			return false
+//@ 		}
+//@ 		p2.Complete(t2)
+//@ 		verifspec.RunSpawned()
+//@ 	}
+//@ 	if order != 0 {
+//@ 		if rs.IsCompleted() || ri.IsCompleted() || verifspec.TraceLen() != 1 {
+//@ 			return false
+//@ 		}
+//@ 		p1.Complete(t1)
+//@ 		verifspec.RunSpawned()
+//@ 	}
+//@ 	if order == 3 {
+//@ 		if t1.IsSuccess() && (rs.IsCompleted() || ri.IsCompleted() || verifspec.TraceLen() != 2) {
+//@ 			return false
+//@ 		}
+//@ 		p2.Complete(t2)
+//@ 	}
+//@ 	verifspec.RunSpawned()
+//@ 	if verifspec.Spawned() != 0 || p1.Failure(fp.ErrOptionEmpty) || p2.Failure(fp.ErrOptionEmpty) {
+//@ 		return false
+//@ 	}
+//@ 	if !verifspec.TraceCall(0, k, x1) {
+//@ 		return false
+//@ 	}
+//@ 	want := fp.Try[fp.Seq[U]]{}
+//@ 	calls := 2
+//@ 	if !t1.IsSuccess() {
+//@ 		want = failed[fp.Seq[U]](t1)
+//@ 		calls = 1
+//@ 	} else if !t2.IsSuccess() {
+//@ 		want = failed[fp.Seq[U]](t2)
+//@ 	} else {
+//@ 		want = try.Success(fp.Seq[U]{t1.Get(), t2.Get()})
+//@ 	}
+//@ 	if verifspec.TraceLen() != calls || (calls == 2 && !verifspec.TraceCall(1, k, x2)) {
+//@ 		return false
+//@ 	}
+//@ 	if variant < 2 {
+//@ 		if !rs.IsCompleted() {
+//@ 			return false
+//@ 		}
+//@ 		v := rs.Value()
+//@ 		if !want.IsSuccess() {
+//@ 			return v.IsFailure() && v.Failed().Get() == want.Failed().Get()
+//@ 		}
+//@ 		return v.IsSuccess() && verifspec.Eq(verifspec.W(fp.Seq[U](v.Get())), verifspec.W(want.Get()))
+//@ 	}
+//@ 	if !ri.IsCompleted() {
+//@ 		return false
+//@ 	}
+//@ 	v := ri.Value()
+//@ 	if !want.IsSuccess() {
+//@ 		return v.IsFailure() && v.Failed().Get() == want.Failed().Get()
+//@ 	}
+//@ 	return v.IsSuccess() && verifspec.Eq(verifspec.W(fp.Seq[U](v.Get().ToSeq())), verifspec.W(want.Get()))
+//@ }
+//@ // FlatMapTraverseSeq / FlatMapTraverseSlice over a source future of a two-element sequence.  variant 0: Seq | 1: slice
+//@ func flatMapTraverse2Scenario[T, U any](srcOK bool, e error, x1, x2 T, t1, t2 fp.Try[U], k func(T) int, early bool, variant int) bool {
+//@ 	p1 := promise.New[U]()
+//@ 	p2 := promise.New[U]()
+//@ 	p1.Complete(t1)
+//@ 	p2.Complete(t2)
+//@ 	n := 0
+//@ 	fn := func(x T) fp.Future[U] {
+//@ 		k(x)
+//@ 		n = n + 1
+//@ 		if n == 1 {
+//@ 			return p1.Future()
+//@ 		}
+//@ 		return p2.Future()
+//@ 	}
+//@ 	src := try.Success(fp.Seq[T]{x1, x2})
+//@ 	if !srcOK {
+//@ 		src = try.Failure[fp.Seq[T]](e)
+//@ 	}
+//@ 	want := fp.Try[fp.Seq[U]]{}
+//@ 	calls := 2
+//@ 	if !srcOK {
+//@ 		want = try.Failure[fp.Seq[U]](e)
+//@ 		calls = 0
+//@ 	} else if !t1.IsSuccess() {
+//@ 		want = failed[fp.Seq[U]](t1)
+//@ 		calls = 1
+//@ 	} else if !t2.IsSuccess() {
+//@ 		want = failed[fp.Seq[U]](t2)
+//@ 	} else {
+//@ 		want = try.Success(fp.Seq[U]{t1.Get(), t2.Get()})
+//@ 	}
+//@ 	if variant == 0 {
+//@ 		r, ok := over1(src, early, func(a fp.Future[fp.Seq[T]]) fp.Future[fp.Seq[U]] { return FlatMapTraverseSeq(a, fn) })
+//@ 		return ok && verifspec.TraceLen() == calls && decided(r, want, want)
+//@ 	}
+//@ 	p := promise.New[[]T]()
+//@ 	if early {
+//@ 		p.Complete(try.Map(src, fp.Seq[T].Widen))
+//@ 	}
+//@ 	r := FlatMapTraverseSlice(p.Future(), fn)
+//@ 	verifspec.RunSpawned()
+//@ 	if !early {
+//@ 		if !notYet(r, 0) {
+//@ 			return false
+//@ 		}
+//@ 		p.Complete(try.Map(src, fp.Seq[T].Widen))
+//@ 	}
+//@ 	if !settled(r) || verifspec.TraceLen() != calls {
+//@ 		return false
+//@ 	}
+//@ 	v := r.Value()
+//@ 	if !want.IsSuccess() {
+//@ 		return v.IsFailure() && v.Failed().Get() == want.Failed().Get()
+//@ 	}
+//@ 	return v.IsSuccess() && verifspec.Eq(verifspec.W(fp.Seq[U](v.Get())), verifspec.W(want.Get()))
+//@ }
+//@ func mapSeqLift2Scenario[T, U any](srcOK bool, e error, x1, x2 T, f func(T) U, early bool, slice bool, again fp.Try[fp.Seq[U]]) bool {
+//@ 	src := try.Success(fp.Seq[T]{x1, x2})
+//@ 	if !srcOK {
+//@ 		src = try.Failure[fp.Seq[T]](e)
+//@ 	}
+//@ 	r, ok := over1(src, early, func(a fp.Future[fp.Seq[T]]) fp.Future[fp.Seq[U]] {
+//@ 		if slice {
+//@ 			return Map(MapSliceLift(Map(a, fp.Seq[T].Widen), f), func(x []U) fp.Seq[U] { return x })
+//@ 		}
+//@ 		return MapSeqLift(a, f)
+//@ 	})
+//@ 	if !ok {
+//@ 		return false
+//@ 	}
+//@ 	if !srcOK {
+//@ 		return verifspec.TraceLen() == 0 && decided(r, try.Failure[fp.Seq[U]](e), again)
+//@ 	}
+//@ 	tr := verifspec.TraceLen() == 2 && verifspec.TraceCall(0, f, x1) && verifspec.TraceCall(1, f, x2)
+//@ 	return tr && decided(r, try.Success(fp.Seq[U]{f(x1), f(x2)}), again)
 //@ }
 //@ end
 //
-//@ lemma futureMap[T, U any](t fp.Try[T], f func(T) U, early bool)
-//@   prop C06
-//@   ensures mapScenario(t, f, early)
+//@ lemma futureSequence3[T any](t1 fp.Try[T], t2 fp.Try[T], t3 fp.Try[T], again fp.Try[[]T])
+//@   prop C06 C02
+//@   option unroll
+//@   ensures sequence3Scenario(t1, t2, t3, 0, again)
+//@   tag allCompleteBeforeBuild
+//@   ensures sequence3Scenario(t1, t2, t3, 1, again)
+//@   tag firstToLast
+//@   ensures sequence3Scenario(t1, t2, t3, 2, again)
+//@   tag lastToFirst
+//@   ensures sequence3Scenario(t1, t2, t3, 3, again)
+//@   tag secondFirstThird
+//@   ensures sequenceEmptyScenario(again)
+//@   tag empty
 //
-//@ lemma futureFlatMap[T, U any](t fp.Try[T], tu fp.Try[U])
-//@   prop C06
-//@   ensures flatMapScenario(t, tu, 0)
+//@ lemma futureSequenceIterator2[T any](t1 fp.Try[T], t2 fp.Try[T])
+//@   prop C06 C02
+//@   option unroll
+//@   ensures sequenceIterator2Scenario(t1, t2, 0)
 //@   tag bothCompleteBeforeBuild
-//@   ensures flatMapScenario(t, tu, 1)
+//@   ensures sequenceIterator2Scenario(t1, t2, 3)
+//@   tag firstThenSecond
+//@   ensures sequenceIterator2Scenario(t1, t2, 4)
+//@   tag secondThenFirst
+//
+//@ lemma futureTraverseSeq3[T, U any](x1 T, x2 T, x3 T, t1 fp.Try[U], t2 fp.Try[U], t3 fp.Try[U], k func(T) int, again fp.Try[fp.Seq[U]])
+//@   prop C06 C02
+//@   option unroll
+//@   ensures traverseSeq3Scenario(x1, x2, x3, t1, t2, t3, k, 0, 0, again)
+//@   tag allCompleteBeforeBuild
+//@   ensures traverseSeq3Scenario(x1, x2, x3, t1, t2, t3, k, 1, 0, again)
+//@   tag firstToLast
+//@   ensures traverseSeq3Scenario(x1, x2, x3, t1, t2, t3, k, 2, 0, again)
+//@   tag lastToFirst
+//@   ensures traverseSeq3Scenario(x1, x2, x3, t1, t2, t3, k, 1, 1, again)
+//@   tag TraverseSeqFunc
+//
+//@ lemma futureTraverse2[T, U any](x1 T, x2 T, t1 fp.Try[U], t2 fp.Try[U], k func(T) int)
+//@   prop C06 C02
+//@   option unroll
+//@   ensures traverse2Scenario(x1, x2, t1, t2, k, 0, 0)
+//@   tag TraverseSlice_bothCompleteBeforeBuild
+//@   ensures traverse2Scenario(x1, x2, t1, t2, k, 3, 0)
+//@   tag TraverseSlice_firstThenSecond
+//@   ensures traverse2Scenario(x1, x2, t1, t2, k, 4, 0)
+//@   tag TraverseSlice_secondThenFirst
+//@   ensures traverse2Scenario(x1, x2, t1, t2, k, 3, 1)
+//@   tag TraverseSliceFunc
+//@   ensures traverse2Scenario(x1, x2, t1, t2, k, 0, 2)
+//@   tag Traverse_bothCompleteBeforeBuild
+//@   ensures traverse2Scenario(x1, x2, t1, t2, k, 3, 2)
+//@   tag Traverse_firstThenSecond
+//@   ensures traverse2Scenario(x1, x2, t1, t2, k, 4, 2)
+//@   tag Traverse_secondThenFirst
+//@   ensures traverse2Scenario(x1, x2, t1, t2, k, 3, 3)
+//@   tag TraverseFunc
+//
+//@ lemma futureFlatMapTraverse2[T, U any](srcOK bool, e error, x1 T, x2 T, t1 fp.Try[U], t2 fp.Try[U], k func(T) int, early bool)
+//@   prop C06 C02
+//@   option unroll
+//@   requires e != nil
+//@   ensures flatMapTraverse2Scenario(srcOK, e, x1, x2, t1, t2, k, early, 0)
+//@   tag FlatMapTraverseSeq
+//@   ensures flatMapTraverse2Scenario(srcOK, e, x1, x2, t1, t2, k, early, 1)
+//@   tag FlatMapTraverseSlice
+//
+//@ lemma futureMapSeqLift2[T, U any](srcOK bool, e error, x1 T, x2 T, f func(T) U, early bool, again fp.Try[fp.Seq[U]])
+//@   prop C06
+//@   option unroll
+//@   requires e != nil
+//@   ensures mapSeqLift2Scenario(srcOK, e, x1, x2, f, early, false, again)
+//@   tag MapSeqLift
+//@   ensures mapSeqLift2Scenario(srcOK, e, x1, x2, f, early, true, again)
+//@   tag MapSliceLift
+//
+// ---------------------------------------------------------------------------------------------
+// func_gen.go: arity families.  mode 0: all sources complete before the combinator is built |
+// 1: built, then sources completed first to last | 2: built, then sources completed last to first.
+//
+//@ schema N=3..9
+//@ ghost
+//@ // sync: with the synchronous executor, which must be handed down to every step: no task is ever given to `go`.
+//@ func liftA{N}Scenario[<<i=1..N|, |A$i>>, R any](<<i=1..N|, |t$i fp.Try[A$i]>>, g func(fp.Tuple{N}[<<i=1..N|, |A$i>>]) R, mode int, sync bool, again fp.Try[R]) bool {
+//@ 	<<i=1..N|; |p$i := promise.New[A$i]()>>
+//@ 	if mode == 0 {
+//@ 		<<i=1..N|; |p$i.Complete(t$i)>>
+//@ 	}
+//@ 	f := func(<<i=1..N|, |a$i A$i>>) R { return g(as.Tuple{N}(<<i=1..N|, |a$i>>)) }
+//@ 	r := fp.Future[R]{}
+//@ 	if sync {
+//@ 		r = LiftA{N}(f, syncExec{})(<<i=1..N|, |p$i.Future()>>)
+//@ 	} else {
+//@ 		r = LiftA{N}(f)(<<i=1..N|, |p$i.Future()>>)
+//@ 	}
+//@ 	verifspec.RunSpawned()
+//@ 	if mode == 1 {
+//@ 		bad := false
+//@ 		<<i=1..N|; |if !stepOK(r, bad, 0) { return false }; p$i.Complete(t$i); if sync && verifspec.Spawned() != 0 { return false }; verifspec.RunSpawned(); bad = bad || !t$i.IsSuccess()>>
+//@ 	}
+//@ 	if mode == 2 {
+//@ 		<<i=N..1|~; |if !notYet(r, 0) { return false }; p$i.Complete(t$i); if sync && verifspec.Spawned() != 0 { return false }; verifspec.RunSpawned()>>
+//@ 	}
+//@ 	if !settled(r) {
+//@ 		return false
+//@ 	}
+//@ 	<<i=1..N|; |if p$i.Failure(fp.ErrOptionEmpty) { return false }>>
+//@ 	<<i=1..N|; |if !t$i.IsSuccess() { return verifspec.TraceLen() == 0 && decided(r, failed[R](t$i), again) }>>
+//@ 	arg := as.Tuple{N}(<<i=1..N|, |t$i.Get()>>)
+//@ 	once := verifspec.CalledOnce(g, arg)
+//@ 	return once && decided(r, try.Success(g(arg)), again)
+//@ }
+//@ // LiftM{N}: the user function hands out the future of q.  mode 0: sources and q complete before build |
+//@ // 1: built, sources first to last, then q | 2: q, built, sources last to first.
+//@ func liftM{N}Scenario[<<i=1..N|, |A$i>>, R any](<<i=1..N|, |t$i fp.Try[A$i]>>, tr fp.Try[R], k func(fp.Tuple{N}[<<i=1..N|, |A$i>>]) int, mode int, again fp.Try[R]) bool {
+//@ 	<<i=1..N|; |p$i := promise.New[A$i]()>>
+//@ 	q := promise.New[R]()
+//@ 	if mode == 0 {
+//@ 		<<i=1..N|; |p$i.Complete(t$i)>>
+//@ 	}
+//@ 	if mode != 1 {
+//@ 		q.Complete(tr)
+//@ 	}
+//@ 	r := LiftM{N}(func(<<i=1..N|, |a$i A$i>>) fp.Future[R] { k(as.Tuple{N}(<<i=1..N|, |a$i>>)); return q.Future() })(<<i=1..N|, |p$i.Future()>>)
+//@ 	verifspec.RunSpawned()
+//@ 	if mode == 1 {
+//@ 		bad := false
+//@ 		<<i=1..N|; |if !stepOK(r, bad, 0) { return false }; p$i.Complete(t$i); verifspec.RunSpawned(); bad = bad || !t$i.IsSuccess()>>
+//@ 	}
+//@ 	if mode == 2 {
+//@ 		<<i=N..1|~; |if !notYet(r, 0) { return false }; p$i.Complete(t$i); verifspec.RunSpawned()>>
+//@ 	}
+//@ 	<<i=1..N|; |if !t$i.IsSuccess() { return verifspec.TraceLen() == 0 && settled(r) && decided(r, failed[R](t$i), again) }>>
+//@ 	if mode == 1 {
+//@ 		if r.IsCompleted() {
+//@ 			return false // the future returned by the user function is not complete yet
+//@ 		}
+//@ 		q.Complete(tr)
+//@ 	}
+//@ 	if !settled(r) || q.Failure(fp.ErrOptionEmpty) {
+//@ 		return false
+//@ 	}
+//@ 	<<i=1..N|; |if p$i.Failure(fp.ErrOptionEmpty) { return false }>>
+//@ 	return verifspec.CalledOnce(k, as.Tuple{N}(<<i=1..N|, |t$i.Get()>>)) && decided(r, tr, again)
+//@ }
+//@ func flap{N}Scenario[<<i=1..N|, |A$i>>, R any](fok bool, e error, g func(fp.Tuple{N}[<<i=1..N|, |A$i>>]) R, <<i=1..N|, |a$i A$i>>, early bool, again fp.Try[R]) bool {
+//@ 	f := curried.Func{N}(func(<<i=1..N|, |x$i A$i>>) R { return g(as.Tuple{N}(<<i=1..N|, |x$i>>)) })
+//@ 	r, ok := over1(tryOfFunc(fok, e, f), early, func(tf fp.Future[<<i=1..N||fp.Func1[A$i, >>R<<i=1..N||]>>]) fp.Future[R] { return Flap{N}(tf)<<i=1..N||(a$i)>> })
+//@ 	if !ok {
+//@ 		return false
+//@ 	}
+//@ 	if !fok {
+//@ 		return verifspec.TraceLen() == 0 && decided(r, try.Failure[R](e), again)
+//@ 	}
+//@ 	arg := as.Tuple{N}(<<i=1..N|, |a$i>>)
+//@ 	once := verifspec.CalledOnce(g, arg)
+//@ 	return once && decided(r, try.Success(g(arg)), again)
+//@ }
+//@ func method{N}Scenario[<<i=1..N|, |A$i>>, R any](t1 fp.Try[A1], <<i=2..N|, |a$i A$i>>, g func(fp.Tuple{N}[<<i=1..N|, |A$i>>]) R, early bool, again fp.Try[R]) bool {
+//@ 	return mapLike(t1, early, again, g, func(a1 A1) fp.Tuple{N}[<<i=1..N|, |A$i>>] { return as.Tuple{N}(<<i=1..N|, |a$i>>) }, func(fa fp.Future[A1]) fp.Future[R] {
+//@ 		return Method{N}(fa, func(<<i=1..N|, |x$i A$i>>) R { return g(as.Tuple{N}(<<i=1..N|, |x$i>>)) })(<<i=2..N|, |a$i>>)
+//@ 	})
+//@ }
+//@ func flatMethod{N}Scenario[<<i=1..N|, |A$i>>, R any](t1 fp.Try[A1], <<i=2..N|, |a$i A$i>>, tr fp.Try[R], k func(fp.Tuple{N}[<<i=1..N|, |A$i>>]) int, order int, again fp.Try[R]) bool {
+//@ 	return flatMapLike(t1, tr, order, again, k, func(a1 A1) fp.Tuple{N}[<<i=1..N|, |A$i>>] { return as.Tuple{N}(<<i=1..N|, |a$i>>) }, func(fa fp.Future[A1], inner fp.Future[R]) fp.Future[R] {
+//@ 		return FlatMethod{N}(fa, func(<<i=1..N|, |x$i A$i>>) fp.Future[R] { k(as.Tuple{N}(<<i=1..N|, |x$i>>)); return inner })(<<i=2..N|, |a$i>>)
+//@ 	})
+//@ }
+//@ end
+//
+//@ lemma futureLiftA{N}[<<i=1..N|, |A$i>>, R any](<<i=1..N|, |t$i fp.Try[A$i]>>, g func(fp.Tuple{N}[<<i=1..N|, |A$i>>]) R, again fp.Try[R])
+//@   prop C06 C02 C14
+//@   ensures liftA{N}Scenario(<<i=1..N|, |t$i>>, g, 0, false, again)
+//@   tag allCompleteBeforeBuild
+//@   ensures liftA{N}Scenario(<<i=1..N|, |t$i>>, g, 1, false, again)
+//@   tag firstToLast
+//@   ensures liftA{N}Scenario(<<i=1..N|, |t$i>>, g, 2, false, again)
+//@   tag lastToFirst
+//@   ensures liftA{N}Scenario(<<i=1..N|, |t$i>>, g, 1, true, again)
+//@   tag synchronousExecutorFirstToLast
+//@   ensures liftA{N}Scenario(<<i=1..N|, |t$i>>, g, 2, true, again)
+//@   tag synchronousExecutorLastToFirst
+//
+//@ lemma futureLiftM{N}[<<i=1..N|, |A$i>>, R any](<<i=1..N|, |t$i fp.Try[A$i]>>, tr fp.Try[R], k func(fp.Tuple{N}[<<i=1..N|, |A$i>>]) int, again fp.Try[R])
+//@   prop C06 C02 C14
+//@   ensures liftM{N}Scenario(<<i=1..N|, |t$i>>, tr, k, 0, again)
+//@   tag allCompleteBeforeBuild
+//@   ensures liftM{N}Scenario(<<i=1..N|, |t$i>>, tr, k, 1, again)
+//@   tag firstToLastThenInner
+//@   ensures liftM{N}Scenario(<<i=1..N|, |t$i>>, tr, k, 2, again)
+//@   tag innerThenLastToFirst
+//
+//@ lemma futureFlap{N}[<<i=1..N|, |A$i>>, R any](fok bool, e error, g func(fp.Tuple{N}[<<i=1..N|, |A$i>>]) R, <<i=1..N|, |a$i A$i>>, early bool, again fp.Try[R])
+//@   prop C06 C02 C14
+//@   requires e != nil
+//@   ensures flap{N}Scenario(fok, e, g, <<i=1..N|, |a$i>>, early, again)
+//
+//@ lemma futureMethod{N}[<<i=1..N|, |A$i>>, R any](t1 fp.Try[A1], <<i=2..N|, |a$i A$i>>, g func(fp.Tuple{N}[<<i=1..N|, |A$i>>]) R, early bool, again fp.Try[R])
+//@   prop C06 C02 C14
+//@   ensures method{N}Scenario(t1, <<i=2..N|, |a$i>>, g, early, again)
+//
+//@ lemma futureFlatMethod{N}[<<i=1..N|, |A$i>>, R any](t1 fp.Try[A1], <<i=2..N|, |a$i A$i>>, tr fp.Try[R], k func(fp.Tuple{N}[<<i=1..N|, |A$i>>]) int, again fp.Try[R])
+//@   prop C06 C02 C14
+//@   ensures flatMethod{N}Scenario(t1, <<i=2..N|, |a$i>>, tr, k, 0, again)
+//@   tag bothCompleteBeforeBuild
+//@   ensures flatMethod{N}Scenario(t1, <<i=2..N|, |a$i>>, tr, k, 1, again)
 //@   tag innerFirst
-//@   ensures flatMapScenario(t, tu, 2)
+//@   ensures flatMethod{N}Scenario(t1, <<i=2..N|, |a$i>>, tr, k, 2, again)
 //@   tag outerFirst
 //
-//@ lemma futureApply[T any](f func() T)
-//@   prop C06 C02
-//@   ensures applyScenario(f)
-//@   tag alwaysCompletes
+//@ schema end
+//
+//@ schema N=1..9
+//@ ghost
+//@ // Func{N} / Unit{N}: Apply2 of the function applied to the arguments.
+//@ func func{N}Scenario[<<i=1..N|, |A$i>>, R any](f func(<<i=1..N|, |A$i>>) (R, error), <<i=1..N|, |a$i A$i>>, again fp.Try[R]) bool {
+//@ 	r := Func{N}(f)(<<i=1..N|, |a$i>>)
+//@ 	if r.IsCompleted() || verifspec.TraceLen() != 0 || verifspec.Spawned() != 1 {
+//@ 		return false
+//@ 	}
+//@ 	if !settled(r) || verifspec.TraceLen() != 1 {
+//@ 		return false
+//@ 	}
+//@ 	v := r.Value()
+//@ 	if fp.Promise[R](r).Complete(again) {
+//@ 		return false
+//@ 	}
+//@ 	return (!Panics(verifspec.P2(f(<<i=1..N|, |a$i>>))) ==> Eq(v, try.Apply(f(<<i=1..N|, |a$i>>))) && Eq(r.Value(), v)) && (Panics(verifspec.P2(f(<<i=1..N|, |a$i>>))) ==> isPanicFailure(v) && isPanicFailure(r.Value()))
+//@ }
+//@ func unit{N}Scenario[<<i=1..N|, |A$i>> any](f func(<<i=1..N|, |A$i>>) error, <<i=1..N|, |a$i A$i>>, again fp.Try[fp.Unit]) bool {
+//@ 	r := Unit{N}(f)(<<i=1..N|, |a$i>>)
+//@ 	if r.IsCompleted() || verifspec.TraceLen() != 0 || verifspec.Spawned() != 1 {
+//@ 		return false
+//@ 	}
+//@ 	if !settled(r) || verifspec.TraceLen() != 1 {
+//@ 		return false
+//@ 	}
+//@ 	v := r.Value()
+//@ 	if fp.Promise[fp.Unit](r).Complete(again) {
+//@ 		return false
+//@ 	}
+//@ 	return (!Panics(f(<<i=1..N|, |a$i>>)) ==> Eq(v, try.Apply(fp.Unit{}, f(<<i=1..N|, |a$i>>))) && Eq(r.Value(), v)) && (Panics(f(<<i=1..N|, |a$i>>)) ==> isPanicFailure(v) && isPanicFailure(r.Value()))
+//@ }
+//@ end
+//
+//@ lemma futureFunc{N}[<<i=1..N|, |A$i>>, R any](f func(<<i=1..N|, |A$i>>) (R, error), u func(<<i=1..N|, |A$i>>) error, <<i=1..N|, |a$i A$i>>, again fp.Try[R], againU fp.Try[fp.Unit])
+//@   prop C06 C02 C14
+//@   ensures func{N}Scenario(f, <<i=1..N|, |a$i>>, again)
+//@   tag Func
+//@   ensures unit{N}Scenario(u, <<i=1..N|, |a$i>>, againU)
+//@   tag Unit
+//
+//@ schema end
+//
+//@ schema N=3..5
+//@ ghost
+//@ // Compose{N}(f1 … f{N})(a0): f$i hands out the future of p$i and is traced as k$i; t{N} is the result of the last one.
+//@ func compose{N}Scenario[<<i=1..N|, |A$i>>, R any](a0 A1, <<i=1..N-1|, |t$i fp.Try[A$(i+1)]>>, t{N} fp.Try[R], <<i=1..N|, |k$i func(A$i) int>>, mode int, again fp.Try[R]) bool {
+//@ 	<<i=1..N-1|; |p$i := promise.New[A$(i+1)]()>>
+//@ 	p{N} := promise.New[R]()
+//@ 	if mode == 0 {
+//@ 		<<i=1..N|; |p$i.Complete(t$i)>>
+//@ 	}
+//@ 	<<i=1..N-1|; |f$i := func(x A$i) fp.Future[A$(i+1)] { k$i(x); return p$i.Future() }>>
+//@ 	f{N} := func(x A{N}) fp.Future[R] { k{N}(x); return p{N}.Future() }
+//@ 	r := Compose{N}(<<i=1..N|, |f$i>>)(a0)
+//@ 	if !verifspec.CalledOnce(k1, a0) {
+//@ 		return false // the first function is applied when the composed function is, the others later
+//@ 	}
+//@ 	verifspec.RunSpawned()
+//@ 	calls := 1
+//@ 	if mode == 1 {
+//@ 		bad := false
+//@ 		<<i=1..N|; |if !stepOK(r, bad, calls) { return false }; p$i.Complete(t$i); verifspec.RunSpawned(); bad = bad || !t$i.IsSuccess(); if !bad && $i < {N} { calls = calls + 1 }>>
+//@ 	}
+//@ 	if mode == 2 {
+//@ 		<<i=N..1|~; |if !notYet(r, 1) { return false }; p$i.Complete(t$i); verifspec.RunSpawned()>>
+//@ 	}
+//@ 	if !settled(r) {
+//@ 		return false
+//@ 	}
+//@ 	<<i=1..N|; |if p$i.Failure(fp.ErrOptionEmpty) { return false }>>
+//@ 	<<i=1..N-1|; |if !t$i.IsSuccess() { return verifspec.TraceLen() == $i && decided(r, failed[R](t$i), again) }; if !verifspec.TraceCall($i, k$(i+1), t$i.Get()) { return false }>>
+//@ 	return verifspec.TraceLen() == {N} && decided(r, t{N}, again)
+//@ }
+//@ end
+//
+//@ lemma futureCompose{N}[<<i=1..N|, |A$i>>, R any](a0 A1, <<i=1..N-1|, |t$i fp.Try[A$(i+1)]>>, t{N} fp.Try[R], <<i=1..N|, |k$i func(A$i) int>>, again fp.Try[R])
+//@   prop C06 C02 C14
+//@   ensures compose{N}Scenario(a0, <<i=1..N|, |t$i>>, <<i=1..N|, |k$i>>, 0, again)
+//@   tag allCompleteBeforeBuild
+//@   ensures compose{N}Scenario(a0, <<i=1..N|, |t$i>>, <<i=1..N|, |k$i>>, 1, again)
+//@   tag firstToLast
+//@   ensures compose{N}Scenario(a0, <<i=1..N|, |t$i>>, <<i=1..N|, |k$i>>, 2, again)
+//@   tag lastToFirst
+//
+//@ schema end
+// ---------------------------------------------------------------------------------------------
+// Applicative{N} / Chain{N} builders (applicative_gen.go, arity 1 in future_op.go).
+// The operands are applied first to last; the Try-level expression is
+//   FlatMap(x1, a1 => FlatMap(x2, a2 => … Success(f(a1, …, aN))))
+// so a supplier / continuation positioned after the first failure is never called.
+// Arity caps.  The Chain builders also thread an hlist of all operands, which keeps consuming the
+// later operands after a failure: the number of paths grows like 4^N and the verifier's step budget
+// (400000 steps: "step budget exhausted") or its bound of 64 tasks per RunSpawned ("too many spawned
+// tasks") is reached.  Each family is therefore stated with all operands symbolic up to the largest
+// arity that is decided, then (lemmas …Ends) with only the first and the last operand symbolic and
+// successful operands between them, as far as that is decided:
+//   Applicative: every family up to 9 (ApTry/ApOption: all symbolic up to 5, …Ends 6..9).
+//   Chain: ApFuture 1..3; ApTry/ApOption 1..3, …Ends 4; Ap 1..5; ApFutureFunc, FlatMap, HListFlatMap 1..5,
+//   …Ends 6; ApTryFunc, ApOptionFunc, ApFunc, Map, HListMap 1..6; Mixed 2..5.  Chain7..Chain9 are not covered.
+//@ schema N=1..9
+//@ ghost
+//@ func appl_apFuture{N}[<<i=1..N|, |A$i>>, R any](<<i=1..N|, |t$i fp.Try[A$i]>>, g func(fp.Tuple{N}[<<i=1..N|, |A$i>>]) R, mode int, again fp.Try[R]) bool {
+//@ 	<<i=1..N|; |p$i := promise.New[A$i]()>>
+//@ 	if mode == 0 {
+//@ 		<<i=1..N|; |p$i.Complete(t$i)>>
+//@ 	}
+//@ 	r := Applicative{N}(func(<<i=1..N|, |a$i A$i>>) R { return g(as.Tuple{N}(<<i=1..N|, |a$i>>)) })<<i=1..N||.ApFuture(p$i.Future())>>
+//@ 	verifspec.RunSpawned()
+//@ 	if mode == 1 {
+//@ 		bad := false
+//@ 		<<i=1..N|; |if !stepOK(r, bad, 0) { return false }; p$i.Complete(t$i); verifspec.RunSpawned(); bad = bad || !t$i.IsSuccess()>>
+//@ 	}
+//@ 	if mode == 2 {
+//@ 		<<i=N..1|~; |if !notYet(r, 0) { return false }; p$i.Complete(t$i); verifspec.RunSpawned()>>
+//@ 	}
+//@ 	if !settled(r) {
+//@ 		return false
+//@ 	}
+//@ 	<<i=1..N|; |if p$i.Failure(fp.ErrOptionEmpty) { return false }>>
+//@ 	<<i=1..N|; |if !t$i.IsSuccess() { return verifspec.TraceLen() == 0 && decided(r, failed[R](t$i), again) }>>
+//@ 	arg := as.Tuple{N}(<<i=1..N|, |t$i.Get()>>)
+//@ 	once := verifspec.CalledOnce(g, arg)
+//@ 	return once && decided(r, try.Success(g(arg)), again)
+//@ }
+//@ // operands given as values: kind 0: ApTry | 1: ApOption (of optOf(t$i): a failure becomes ErrOptionEmpty)
+//@ func appl_apValue{N}[<<i=1..N|, |A$i>>, R any](<<i=1..N|, |t$i fp.Try[A$i]>>, g func(fp.Tuple{N}[<<i=1..N|, |A$i>>]) R, kind int, again fp.Try[R]) bool {
+//@ 	f := func(<<i=1..N|, |a$i A$i>>) R { return g(as.Tuple{N}(<<i=1..N|, |a$i>>)) }
+//@ 	r := fp.Future[R]{}
+//@ 	if kind == 0 {
+//@ 		r = Applicative{N}(f)<<i=1..N||.ApTry(t$i)>>
+//@ 	} else {
+//@ 		r = Applicative{N}(f)<<i=1..N||.ApOption(optOf(t$i))>>
+//@ 	}
+//@ 	if !settled(r) {
+//@ 		return false
+//@ 	}
+//@ 	<<i=1..N|; |if !t$i.IsSuccess() { if kind == 1 { return verifspec.TraceLen() == 0 && decided(r, try.Failure[R](fp.ErrOptionEmpty), again) }; return verifspec.TraceLen() == 0 && decided(r, failed[R](t$i), again) }>>
+//@ 	arg := as.Tuple{N}(<<i=1..N|, |t$i.Get()>>)
+//@ 	once := verifspec.CalledOnce(g, arg)
+//@ 	return once && decided(r, try.Success(g(arg)), again)
+//@ }
+//@ func appl_ap{N}[<<i=1..N|, |A$i>>, R any](<<i=1..N|, |v$i A$i>>, g func(fp.Tuple{N}[<<i=1..N|, |A$i>>]) R, again fp.Try[R]) bool {
+//@ 	r := Applicative{N}(func(<<i=1..N|, |a$i A$i>>) R { return g(as.Tuple{N}(<<i=1..N|, |a$i>>)) })<<i=1..N||.Ap(v$i)>>
+//@ 	if !settled(r) {
+//@ 		return false
+//@ 	}
+//@ 	arg := as.Tuple{N}(<<i=1..N|, |v$i>>)
+//@ 	once := verifspec.CalledOnce(g, arg)
+//@ 	return once && decided(r, try.Success(g(arg)), again)
+//@ }
+//@ // ApFutureFunc: supplier i applies s(i) and hands out the future of p$i.  It is called exactly when the operands
+//@ // before it are complete and successful.
+//@ func appl_apFutureFunc{N}[<<i=1..N|, |A$i>>, R any](<<i=1..N|, |t$i fp.Try[A$i]>>, g func(fp.Tuple{N}[<<i=1..N|, |A$i>>]) R, s func(int) int, mode int, again fp.Try[R]) bool {
+//@ 	<<i=1..N|; |p$i := promise.New[A$i]()>>
+//@ 	if mode == 0 {
+//@ 		<<i=1..N|; |p$i.Complete(t$i)>>
+//@ 	}
+//@ 	r := Applicative{N}(func(<<i=1..N|, |a$i A$i>>) R { return g(as.Tuple{N}(<<i=1..N|, |a$i>>)) })<<i=1..N||.ApFutureFunc(func() fp.Future[A$i] { s($i); return p$i.Future() })>>
+//@ 	verifspec.RunSpawned()
+//@ 	if mode == 1 {
+//@ 		bad := false
+//@ 		<<i=1..N|; |if !bad && !(notYet(r, $i) && verifspec.TraceCall($(i-1), s, $i)) { return false }; if bad && !(r.IsCompleted() && verifspec.Spawned() == 0 && verifspec.TraceLen() < $i) { return false }; p$i.Complete(t$i); verifspec.RunSpawned(); bad = bad || !t$i.IsSuccess()>>
+//@ 	}
+//@ 	if mode == 2 {
+//@ 		<<i=N..1|~; |if !notYet(r, 1) { return false }; p$i.Complete(t$i); verifspec.RunSpawned()>>
+//@ 	}
+//@ 	if !settled(r) {
+//@ 		return false
+//@ 	}
+//@ 	<<i=1..N|; |if p$i.Failure(fp.ErrOptionEmpty) { return false }>>
+//@ 	<<i=1..N|; |if !verifspec.TraceCall($(i-1), s, $i) { return false }; if !t$i.IsSuccess() { return verifspec.TraceLen() == $i && decided(r, failed[R](t$i), again) }>>
+//@ 	arg := as.Tuple{N}(<<i=1..N|, |t$i.Get()>>)
+//@ 	tr := verifspec.TraceLen() == {N}+1 && verifspec.TraceCall({N}, g, arg)
+//@ 	return tr && decided(r, try.Success(g(arg)), again)
+//@ }
+//@ // suppliers of values: supplier i is x$i($i).
+//@ func appl_apTryFunc{N}[<<i=1..N|, |A$i>>, R any](<<i=1..N|, |x$i func(int) fp.Try[A$i]>>, g func(fp.Tuple{N}[<<i=1..N|, |A$i>>]) R, again fp.Try[R]) bool {
+//@ 	r := Applicative{N}(func(<<i=1..N|, |a$i A$i>>) R { return g(as.Tuple{N}(<<i=1..N|, |a$i>>)) })<<i=1..N||.ApTryFunc(func() fp.Try[A$i] { return x$i($i) })>>
+//@ 	if !settled(r) {
+//@ 		return false
+//@ 	}
+//@ 	n := verifspec.TraceLen()
+//@ 	<<i=1..N|; |if !verifspec.TraceCall($(i-1), x$i, $i) { return false }; r$i := x$i($i); if !r$i.IsSuccess() { return n == $i && decided(r, failed[R](r$i), again) }>>
+//@ 	arg := as.Tuple{N}(<<i=1..N|, |r$i.Get()>>)
+//@ 	tr := n == {N}+1 && verifspec.TraceCall({N}, g, arg)
+//@ 	return tr && decided(r, try.Success(g(arg)), again)
+//@ }
+//@ func appl_apOptionFunc{N}[<<i=1..N|, |A$i>>, R any](<<i=1..N|, |x$i func(int) fp.Option[A$i]>>, g func(fp.Tuple{N}[<<i=1..N|, |A$i>>]) R, again fp.Try[R]) bool {
+//@ 	r := Applicative{N}(func(<<i=1..N|, |a$i A$i>>) R { return g(as.Tuple{N}(<<i=1..N|, |a$i>>)) })<<i=1..N||.ApOptionFunc(func() fp.Option[A$i] { return x$i($i) })>>
+//@ 	if !settled(r) {
+//@ 		return false
+//@ 	}
+//@ 	n := verifspec.TraceLen()
+//@ 	<<i=1..N|; |if !verifspec.TraceCall($(i-1), x$i, $i) { return false }; r$i := x$i($i); if !r$i.IsDefined() { return n == $i && decided(r, try.Failure[R](fp.ErrOptionEmpty), again) }>>
+//@ 	arg := as.Tuple{N}(<<i=1..N|, |r$i.Get()>>)
+//@ 	tr := n == {N}+1 && verifspec.TraceCall({N}, g, arg)
+//@ 	return tr && decided(r, try.Success(g(arg)), again)
+//@ }
+//@ func appl_apFunc{N}[<<i=1..N|, |A$i>>, R any](<<i=1..N|, |x$i func(int) A$i>>, g func(fp.Tuple{N}[<<i=1..N|, |A$i>>]) R, again fp.Try[R]) bool {
+//@ 	r := Applicative{N}(func(<<i=1..N|, |a$i A$i>>) R { return g(as.Tuple{N}(<<i=1..N|, |a$i>>)) })<<i=1..N||.ApFunc(func() A$i { return x$i($i) })>>
+//@ 	if !settled(r) {
+//@ 		return false
+//@ 	}
+//@ 	n := verifspec.TraceLen()
+//@ 	<<i=1..N|; |if !verifspec.TraceCall($(i-1), x$i, $i) { return false }>>
+//@ 	arg := as.Tuple{N}(<<i=1..N|, |x$i($i)>>)
+//@ 	tr := n == {N}+1 && verifspec.TraceCall({N}, g, arg)
+//@ 	return tr && decided(r, try.Success(g(arg)), again)
+//@ }
+//@ end
+//@ schema end
+//
+//@ schema N=1..9
+//@ lemma futureApplicative{N}ApFuture[<<i=1..N|, |A$i>>, R any](<<i=1..N|, |t$i fp.Try[A$i]>>, g func(fp.Tuple{N}[<<i=1..N|, |A$i>>]) R, again fp.Try[R])
+//@   prop C06 C02 C14
+//@   ensures appl_apFuture{N}(<<i=1..N|, |t$i>>, g, 0, again)
+//@   tag allCompleteBeforeBuild
+//@   ensures appl_apFuture{N}(<<i=1..N|, |t$i>>, g, 1, again)
+//@   tag firstToLast
+//@   ensures appl_apFuture{N}(<<i=1..N|, |t$i>>, g, 2, again)
+//@   tag lastToFirst
+//@ schema end
+//
+//@ schema N=1..5
+//@ lemma futureApplicative{N}ApValues[<<i=1..N|, |A$i>>, R any](<<i=1..N|, |t$i fp.Try[A$i]>>, g func(fp.Tuple{N}[<<i=1..N|, |A$i>>]) R, again fp.Try[R])
+//@   prop C06 C02 C14
+//@   ensures appl_apValue{N}(<<i=1..N|, |t$i>>, g, 0, again)
+//@   tag ApTry
+//@   ensures appl_apValue{N}(<<i=1..N|, |t$i>>, g, 1, again)
+//@   tag ApOption
+//@ schema end
+//
+//@ schema N=6..9
+//@ lemma futureApplicative{N}ApValuesEnds[<<i=1..N|, |A$i>>, R any](t1 fp.Try[A1], <<i=2..N-1|, |v$i A$i>>, t{N} fp.Try[A{N}], g func(fp.Tuple{N}[<<i=1..N|, |A$i>>]) R, again fp.Try[R])
+//@   prop C06 C02 C14
+//@   ensures appl_apValue{N}(t1, <<i=2..N-1|, |try.Success(v$i)>>, t{N}, g, 0, again)
+//@   tag ApTry
+//@   ensures appl_apValue{N}(t1, <<i=2..N-1|, |try.Success(v$i)>>, t{N}, g, 1, again)
+//@   tag ApOption
+//@ schema end
+//
+//@ schema N=1..9
+//@ lemma futureApplicative{N}Ap[<<i=1..N|, |A$i>>, R any](<<i=1..N|, |v$i A$i>>, g func(fp.Tuple{N}[<<i=1..N|, |A$i>>]) R, again fp.Try[R])
+//@   prop C06 C14
+//@   ensures appl_ap{N}(<<i=1..N|, |v$i>>, g, again)
+//@ schema end
+//
+//@ schema N=1..9
+//@ lemma futureApplicative{N}ApFutureFunc[<<i=1..N|, |A$i>>, R any](<<i=1..N|, |t$i fp.Try[A$i]>>, g func(fp.Tuple{N}[<<i=1..N|, |A$i>>]) R, s func(int) int, again fp.Try[R])
+//@   prop C06 C02 C14
+//@   ensures appl_apFutureFunc{N}(<<i=1..N|, |t$i>>, g, s, 0, again)
+//@   tag allCompleteBeforeBuild
+//@   ensures appl_apFutureFunc{N}(<<i=1..N|, |t$i>>, g, s, 1, again)
+//@   tag firstToLast
+//@   ensures appl_apFutureFunc{N}(<<i=1..N|, |t$i>>, g, s, 2, again)
+//@   tag lastToFirst
+//@ schema end
+//
+//@ schema N=1..9
+//@ lemma futureApplicative{N}ApTryFunc[<<i=1..N|, |A$i>>, R any](<<i=1..N|, |x$i func(int) fp.Try[A$i]>>, g func(fp.Tuple{N}[<<i=1..N|, |A$i>>]) R, again fp.Try[R])
+//@   prop C06 C02 C14
+//@   ensures appl_apTryFunc{N}(<<i=1..N|, |x$i>>, g, again)
+//@ schema end
+//
+//@ schema N=1..9
+//@ lemma futureApplicative{N}ApOptionFunc[<<i=1..N|, |A$i>>, R any](<<i=1..N|, |x$i func(int) fp.Option[A$i]>>, g func(fp.Tuple{N}[<<i=1..N|, |A$i>>]) R, again fp.Try[R])
+//@   prop C06 C02 C14
+//@   ensures appl_apOptionFunc{N}(<<i=1..N|, |x$i>>, g, again)
+//@ schema end
+//
+//@ schema N=1..9
+//@ lemma futureApplicative{N}ApFunc[<<i=1..N|, |A$i>>, R any](<<i=1..N|, |x$i func(int) A$i>>, g func(fp.Tuple{N}[<<i=1..N|, |A$i>>]) R, again fp.Try[R])
+//@   prop C06 C02 C14
+//@   ensures appl_apFunc{N}(<<i=1..N|, |x$i>>, g, again)
+//@ schema end
+//
+//@ schema N=1..9
+//@ ghost
+//@ func chn_apFuture{N}[<<i=1..N|, |A$i>>, R any](<<i=1..N|, |t$i fp.Try[A$i]>>, g func(fp.Tuple{N}[<<i=1..N|, |A$i>>]) R, mode int, again fp.Try[R]) bool {
+//@ 	<<i=1..N|; |p$i := promise.New[A$i]()>>
+//@ 	if mode == 0 {
+//@ 		<<i=1..N|; |p$i.Complete(t$i)>>
+//@ 	}
+//@ 	r := Chain{N}(func(<<i=1..N|, |a$i A$i>>) R { return g(as.Tuple{N}(<<i=1..N|, |a$i>>)) })<<i=1..N||.ApFuture(p$i.Future())>>
+//@ 	verifspec.RunSpawned()
+//@ 	if mode == 1 {
+//@ 		bad := false
+//@ 		<<i=1..N|; |if !stepOK(r, bad, 0) { return false }; p$i.Complete(t$i); verifspec.RunSpawned(); bad = bad || !t$i.IsSuccess()>>
+//@ 	}
+//@ 	if mode == 2 {
+//@ 		<<i=N..1|~; |if !notYet(r, 0) { return false }; p$i.Complete(t$i); verifspec.RunSpawned()>>
+//@ 	}
+//@ 	if !settled(r) {
+//@ 		return false
+//@ 	}
+//@ 	<<i=1..N|; |if p$i.Failure(fp.ErrOptionEmpty) { return false }>>
+//@ 	<<i=1..N|; |if !t$i.IsSuccess() { return verifspec.TraceLen() == 0 && decided(r, failed[R](t$i), again) }>>
+//@ 	arg := as.Tuple{N}(<<i=1..N|, |t$i.Get()>>)
+//@ 	once := verifspec.CalledOnce(g, arg)
+//@ 	return once && decided(r, try.Success(g(arg)), again)
+//@ }
+//@ // operands given as values: kind 0: ApTry | 1: ApOption (of optOf(t$i): a failure becomes ErrOptionEmpty)
+//@ func chn_apValue{N}[<<i=1..N|, |A$i>>, R any](<<i=1..N|, |t$i fp.Try[A$i]>>, g func(fp.Tuple{N}[<<i=1..N|, |A$i>>]) R, kind int, again fp.Try[R]) bool {
+//@ 	f := func(<<i=1..N|, |a$i A$i>>) R { return g(as.Tuple{N}(<<i=1..N|, |a$i>>)) }
+//@ 	r := fp.Future[R]{}
+//@ 	if kind == 0 {
+//@ 		r = Chain{N}(f)<<i=1..N||.ApTry(t$i)>>
+//@ 	} else {
+//@ 		r = Chain{N}(f)<<i=1..N||.ApOption(optOf(t$i))>>
+//@ 	}
+//@ 	if !settled(r) {
+//@ 		return false
+//@ 	}
+//@ 	<<i=1..N|; |if !t$i.IsSuccess() { if kind == 1 { return verifspec.TraceLen() == 0 && decided(r, try.Failure[R](fp.ErrOptionEmpty), again) }; return verifspec.TraceLen() == 0 && decided(r, failed[R](t$i), again) }>>
+//@ 	arg := as.Tuple{N}(<<i=1..N|, |t$i.Get()>>)
+//@ 	once := verifspec.CalledOnce(g, arg)
+//@ 	return once && decided(r, try.Success(g(arg)), again)
+//@ }
+//@ func chn_ap{N}[<<i=1..N|, |A$i>>, R any](<<i=1..N|, |v$i A$i>>, g func(fp.Tuple{N}[<<i=1..N|, |A$i>>]) R, again fp.Try[R]) bool {
+//@ 	r := Chain{N}(func(<<i=1..N|, |a$i A$i>>) R { return g(as.Tuple{N}(<<i=1..N|, |a$i>>)) })<<i=1..N||.Ap(v$i)>>
+//@ 	if !settled(r) {
+//@ 		return false
+//@ 	}
+//@ 	arg := as.Tuple{N}(<<i=1..N|, |v$i>>)
+//@ 	once := verifspec.CalledOnce(g, arg)
+//@ 	return once && decided(r, try.Success(g(arg)), again)
+//@ }
+//@ // ApFutureFunc: supplier i applies s(i) and hands out the future of p$i.  It is called exactly when the operands
+//@ // before it are complete and successful.
+//@ func chn_apFutureFunc{N}[<<i=1..N|, |A$i>>, R any](<<i=1..N|, |t$i fp.Try[A$i]>>, g func(fp.Tuple{N}[<<i=1..N|, |A$i>>]) R, s func(int) int, mode int, again fp.Try[R]) bool {
+//@ 	<<i=1..N|; |p$i := promise.New[A$i]()>>
+//@ 	if mode == 0 {
+//@ 		<<i=1..N|; |p$i.Complete(t$i)>>
+//@ 	}
+//@ 	r := Chain{N}(func(<<i=1..N|, |a$i A$i>>) R { return g(as.Tuple{N}(<<i=1..N|, |a$i>>)) })<<i=1..N||.ApFutureFunc(func() fp.Future[A$i] { s($i); return p$i.Future() })>>
+//@ 	verifspec.RunSpawned()
+//@ 	if mode == 1 {
+//@ 		bad := false
+//@ 		<<i=1..N|; |if !bad && !(notYet(r, $i) && verifspec.TraceCall($(i-1), s, $i)) { return false }; if bad && !(r.IsCompleted() && verifspec.Spawned() == 0 && verifspec.TraceLen() < $i) { return false }; p$i.Complete(t$i); verifspec.RunSpawned(); bad = bad || !t$i.IsSuccess()>>
+//@ 	}
+//@ 	if mode == 2 {
+//@ 		<<i=N..1|~; |if !notYet(r, 1) { return false }; p$i.Complete(t$i); verifspec.RunSpawned()>>
+//@ 	}
+//@ 	if !settled(r) {
+//@ 		return false
+//@ 	}
+//@ 	<<i=1..N|; |if p$i.Failure(fp.ErrOptionEmpty) { return false }>>
+//@ 	<<i=1..N|; |if !verifspec.TraceCall($(i-1), s, $i) { return false }; if !t$i.IsSuccess() { return verifspec.TraceLen() == $i && decided(r, failed[R](t$i), again) }>>
+//@ 	arg := as.Tuple{N}(<<i=1..N|, |t$i.Get()>>)
+//@ 	tr := verifspec.TraceLen() == {N}+1 && verifspec.TraceCall({N}, g, arg)
+//@ 	return tr && decided(r, try.Success(g(arg)), again)
+//@ }
+//@ // suppliers of values: supplier i is x$i($i).
+//@ func chn_apTryFunc{N}[<<i=1..N|, |A$i>>, R any](<<i=1..N|, |x$i func(int) fp.Try[A$i]>>, g func(fp.Tuple{N}[<<i=1..N|, |A$i>>]) R, again fp.Try[R]) bool {
+//@ 	r := Chain{N}(func(<<i=1..N|, |a$i A$i>>) R { return g(as.Tuple{N}(<<i=1..N|, |a$i>>)) })<<i=1..N||.ApTryFunc(func() fp.Try[A$i] { return x$i($i) })>>
+//@ 	if !settled(r) {
+//@ 		return false
+//@ 	}
+//@ 	n := verifspec.TraceLen()
+//@ 	<<i=1..N|; |if !verifspec.TraceCall($(i-1), x$i, $i) { return false }; r$i := x$i($i); if !r$i.IsSuccess() { return n == $i && decided(r, failed[R](r$i), again) }>>
+//@ 	arg := as.Tuple{N}(<<i=1..N|, |r$i.Get()>>)
+//@ 	tr := n == {N}+1 && verifspec.TraceCall({N}, g, arg)
+//@ 	return tr && decided(r, try.Success(g(arg)), again)
+//@ }
+//@ func chn_apOptionFunc{N}[<<i=1..N|, |A$i>>, R any](<<i=1..N|, |x$i func(int) fp.Option[A$i]>>, g func(fp.Tuple{N}[<<i=1..N|, |A$i>>]) R, again fp.Try[R]) bool {
+//@ 	r := Chain{N}(func(<<i=1..N|, |a$i A$i>>) R { return g(as.Tuple{N}(<<i=1..N|, |a$i>>)) })<<i=1..N||.ApOptionFunc(func() fp.Option[A$i] { return x$i($i) })>>
+//@ 	if !settled(r) {
+//@ 		return false
+//@ 	}
+//@ 	n := verifspec.TraceLen()
+//@ 	<<i=1..N|; |if !verifspec.TraceCall($(i-1), x$i, $i) { return false }; r$i := x$i($i); if !r$i.IsDefined() { return n == $i && decided(r, try.Failure[R](fp.ErrOptionEmpty), again) }>>
+//@ 	arg := as.Tuple{N}(<<i=1..N|, |r$i.Get()>>)
+//@ 	tr := n == {N}+1 && verifspec.TraceCall({N}, g, arg)
+//@ 	return tr && decided(r, try.Success(g(arg)), again)
+//@ }
+//@ func chn_apFunc{N}[<<i=1..N|, |A$i>>, R any](<<i=1..N|, |x$i func(int) A$i>>, g func(fp.Tuple{N}[<<i=1..N|, |A$i>>]) R, again fp.Try[R]) bool {
+//@ 	r := Chain{N}(func(<<i=1..N|, |a$i A$i>>) R { return g(as.Tuple{N}(<<i=1..N|, |a$i>>)) })<<i=1..N||.ApFunc(func() A$i { return x$i($i) })>>
+//@ 	if !settled(r) {
+//@ 		return false
+//@ 	}
+//@ 	n := verifspec.TraceLen()
+//@ 	<<i=1..N|; |if !verifspec.TraceCall($(i-1), x$i, $i) { return false }>>
+//@ 	arg := as.Tuple{N}(<<i=1..N|, |x$i($i)>>)
+//@ 	tr := n == {N}+1 && verifspec.TraceCall({N}, g, arg)
+//@ 	return tr && decided(r, try.Success(g(arg)), again)
+//@ }
+//@ end
+//@ schema end
+//
+//@ schema N=1..3
+//@ lemma futureChain{N}ApFuture[<<i=1..N|, |A$i>>, R any](<<i=1..N|, |t$i fp.Try[A$i]>>, g func(fp.Tuple{N}[<<i=1..N|, |A$i>>]) R, again fp.Try[R])
+//@   prop C06 C02 C14
+//@   ensures chn_apFuture{N}(<<i=1..N|, |t$i>>, g, 0, again)
+//@   tag allCompleteBeforeBuild
+//@   ensures chn_apFuture{N}(<<i=1..N|, |t$i>>, g, 1, again)
+//@   tag firstToLast
+//@   ensures chn_apFuture{N}(<<i=1..N|, |t$i>>, g, 2, again)
+//@   tag lastToFirst
+//@ schema end
+//
+//@ schema N=1..3
+//@ lemma futureChain{N}ApValues[<<i=1..N|, |A$i>>, R any](<<i=1..N|, |t$i fp.Try[A$i]>>, g func(fp.Tuple{N}[<<i=1..N|, |A$i>>]) R, again fp.Try[R])
+//@   prop C06 C02 C14
+//@   ensures chn_apValue{N}(<<i=1..N|, |t$i>>, g, 0, again)
+//@   tag ApTry
+//@   ensures chn_apValue{N}(<<i=1..N|, |t$i>>, g, 1, again)
+//@   tag ApOption
+//@ schema end
+//
+//@ schema N=4..4
+//@ lemma futureChain{N}ApValuesEnds[<<i=1..N|, |A$i>>, R any](t1 fp.Try[A1], <<i=2..N-1|, |v$i A$i>>, t{N} fp.Try[A{N}], g func(fp.Tuple{N}[<<i=1..N|, |A$i>>]) R, again fp.Try[R])
+//@   prop C06 C02 C14
+//@   ensures chn_apValue{N}(t1, <<i=2..N-1|, |try.Success(v$i)>>, t{N}, g, 0, again)
+//@   tag ApTry
+//@   ensures chn_apValue{N}(t1, <<i=2..N-1|, |try.Success(v$i)>>, t{N}, g, 1, again)
+//@   tag ApOption
+//@ schema end
+//
+//@ schema N=1..5
+//@ lemma futureChain{N}Ap[<<i=1..N|, |A$i>>, R any](<<i=1..N|, |v$i A$i>>, g func(fp.Tuple{N}[<<i=1..N|, |A$i>>]) R, again fp.Try[R])
+//@   prop C06 C14
+//@   ensures chn_ap{N}(<<i=1..N|, |v$i>>, g, again)
+//@ schema end
+//
+//@ schema N=1..5
+//@ lemma futureChain{N}ApFutureFunc[<<i=1..N|, |A$i>>, R any](<<i=1..N|, |t$i fp.Try[A$i]>>, g func(fp.Tuple{N}[<<i=1..N|, |A$i>>]) R, s func(int) int, again fp.Try[R])
+//@   prop C06 C02 C14
+//@   ensures chn_apFutureFunc{N}(<<i=1..N|, |t$i>>, g, s, 0, again)
+//@   tag allCompleteBeforeBuild
+//@   ensures chn_apFutureFunc{N}(<<i=1..N|, |t$i>>, g, s, 1, again)
+//@   tag firstToLast
+//@   ensures chn_apFutureFunc{N}(<<i=1..N|, |t$i>>, g, s, 2, again)
+//@   tag lastToFirst
+//@ schema end
+//
+//@ schema N=6..6
+//@ lemma futureChain{N}ApFutureFuncEnds[<<i=1..N|, |A$i>>, R any](t1 fp.Try[A1], <<i=2..N-1|, |v$i A$i>>, t{N} fp.Try[A{N}], g func(fp.Tuple{N}[<<i=1..N|, |A$i>>]) R, s func(int) int, again fp.Try[R])
+//@   prop C06 C02 C14
+//@   ensures chn_apFutureFunc{N}(t1, <<i=2..N-1|, |try.Success(v$i)>>, t{N}, g, s, 0, again)
+//@   tag allCompleteBeforeBuild
+//@   ensures chn_apFutureFunc{N}(t1, <<i=2..N-1|, |try.Success(v$i)>>, t{N}, g, s, 1, again)
+//@   tag firstToLast
+//@   ensures chn_apFutureFunc{N}(t1, <<i=2..N-1|, |try.Success(v$i)>>, t{N}, g, s, 2, again)
+//@   tag lastToFirst
+//@ schema end
+//
+//@ schema N=1..6
+//@ lemma futureChain{N}ApTryFunc[<<i=1..N|, |A$i>>, R any](<<i=1..N|, |x$i func(int) fp.Try[A$i]>>, g func(fp.Tuple{N}[<<i=1..N|, |A$i>>]) R, again fp.Try[R])
+//@   prop C06 C02 C14
+//@   ensures chn_apTryFunc{N}(<<i=1..N|, |x$i>>, g, again)
+//@ schema end
+//
+//@ schema N=1..6
+//@ lemma futureChain{N}ApOptionFunc[<<i=1..N|, |A$i>>, R any](<<i=1..N|, |x$i func(int) fp.Option[A$i]>>, g func(fp.Tuple{N}[<<i=1..N|, |A$i>>]) R, again fp.Try[R])
+//@   prop C06 C02 C14
+//@   ensures chn_apOptionFunc{N}(<<i=1..N|, |x$i>>, g, again)
+//@ schema end
+//
+//@ schema N=1..6
+//@ lemma futureChain{N}ApFunc[<<i=1..N|, |A$i>>, R any](<<i=1..N|, |x$i func(int) A$i>>, g func(fp.Tuple{N}[<<i=1..N|, |A$i>>]) R, again fp.Try[R])
+//@   prop C06 C02 C14
+//@   ensures chn_apFunc{N}(<<i=1..N|, |x$i>>, g, again)
+//@ schema end
+//
+// Chain{N} finishers.  FlatMap: continuation i receives the previous operand (hlist.Nil for the first), applies k$i
+// (trace) and hands out the future of p$i.  HListFlatMap: it receives the list of all previous operands, latest first.
+//
+//@ schema N=1..9
+//@ ghost
+//@ func chainFlatMap{N}[<<i=1..N|, |A$i>>, R any](<<i=1..N|, |t$i fp.Try[A$i]>>, g func(fp.Tuple{N}[<<i=1..N|, |A$i>>]) R, k1 func(hlist.Nil) int<<i=2..N||, k$i func(A$(i-1)) int>>, mode int, again fp.Try[R]) bool {
+//@ 	<<i=1..N|; |p$i := promise.New[A$i]()>>
+//@ 	if mode == 0 {
+//@ 		<<i=1..N|; |p$i.Complete(t$i)>>
+//@ 	}
+//@ 	r := Chain{N}(func(<<i=1..N|, |a$i A$i>>) R { return g(as.Tuple{N}(<<i=1..N|, |a$i>>)) }).FlatMap(func(h hlist.Nil) fp.Future[A1] { k1(h); return p1.Future() })<<i=2..N||.FlatMap(func(h A$(i-1)) fp.Future[A$i] { k$i(h); return p$i.Future() })>>
+//@ 	verifspec.RunSpawned()
+//@ 	if mode == 1 {
+//@ 		bad := false
+//@ 		<<i=1..N|; |if !bad && !notYet(r, $i) { return false }; if bad && !(r.IsCompleted() && verifspec.Spawned() == 0 && verifspec.TraceLen() < $i) { return false }; p$i.Complete(t$i); verifspec.RunSpawned(); bad = bad || !t$i.IsSuccess()>>
+//@ 	}
+//@ 	if mode == 2 {
+//@ 		<<i=N..1|~; |if !notYet(r, 1) { return false }; p$i.Complete(t$i); verifspec.RunSpawned()>>
+//@ 	}
+//@ 	if !settled(r) {
+//@ 		return false
+//@ 	}
+//@ 	<<i=1..N|; |if p$i.Failure(fp.ErrOptionEmpty) { return false }>>
+//@ 	if !verifspec.TraceCall(0, k1, hlist.Empty()) {
+//@ 		return false
+//@ 	}
+//@ 	<<i=1..N-1|; |if !t$i.IsSuccess() { return verifspec.TraceLen() == $i && decided(r, failed[R](t$i), again) }; if !verifspec.TraceCall($i, k$(i+1), t$i.Get()) { return false }>>
+//@ 	if !t{N}.IsSuccess() {
+//@ 		return verifspec.TraceLen() == {N} && decided(r, failed[R](t{N}), again)
+//@ 	}
+//@ 	arg := as.Tuple{N}(<<i=1..N|, |t$i.Get()>>)
+//@ 	tr := verifspec.TraceLen() == {N}+1 && verifspec.TraceCall({N}, g, arg)
+//@ 	return tr && decided(r, try.Success(g(arg)), again)
+//@ }
+//@ func chainHListFlatMap{N}[<<i=1..N|, |A$i>>, R any](<<i=1..N|, |t$i fp.Try[A$i]>>, g func(fp.Tuple{N}[<<i=1..N|, |A$i>>]) R, k1 func(hlist.Nil) int<<i=2..N||, k$i func(<<j=i-1..1|~|hlist.Cons[A$j, >>hlist.Nil<<j=1..i-1||]>>) int>>, mode int, again fp.Try[R]) bool {
+//@ 	<<i=1..N|; |p$i := promise.New[A$i]()>>
+//@ 	if mode == 0 {
+//@ 		<<i=1..N|; |p$i.Complete(t$i)>>
+//@ 	}
+//@ 	r := Chain{N}(func(<<i=1..N|, |a$i A$i>>) R { return g(as.Tuple{N}(<<i=1..N|, |a$i>>)) }).HListFlatMap(func(h hlist.Nil) fp.Future[A1] { k1(h); return p1.Future() })<<i=2..N||.HListFlatMap(func(h <<j=i-1..1|~|hlist.Cons[A$j, >>hlist.Nil<<j=1..i-1||]>>) fp.Future[A$i] { k$i(h); return p$i.Future() })>>
+//@ 	verifspec.RunSpawned()
+//@ 	if mode == 1 {
+//@ 		bad := false
+//@ 		<<i=1..N|; |if !bad && !notYet(r, $i) { return false }; if bad && !(r.IsCompleted() && verifspec.Spawned() == 0 && verifspec.TraceLen() < $i) { return false }; p$i.Complete(t$i); verifspec.RunSpawned(); bad = bad || !t$i.IsSuccess()>>
+//@ 	}
+//@ 	if mode == 2 {
+//@ 		<<i=N..1|~; |if !notYet(r, 1) { return false }; p$i.Complete(t$i); verifspec.RunSpawned()>>
+//@ 	}
+//@ 	if !settled(r) {
+//@ 		return false
+//@ 	}
+//@ 	<<i=1..N|; |if p$i.Failure(fp.ErrOptionEmpty) { return false }>>
+//@ 	if !verifspec.TraceCall(0, k1, hlist.Empty()) { return false }; if !t1.IsSuccess() { return verifspec.TraceLen() == 1 && decided(r, failed[R](t1), again) }
+//@ 	<<i=2..N|; |if !verifspec.TraceCall($(i-1), k$i, <<j=i-1..1|~|hlist.Concat(t$j.Get(), >>hlist.Empty()<<j=1..i-1||)>>) { return false }; if !t$i.IsSuccess() { return verifspec.TraceLen() == $i && decided(r, failed[R](t$i), again) }>>
+//@ 	arg := as.Tuple{N}(<<i=1..N|, |t$i.Get()>>)
+//@ 	tr := verifspec.TraceLen() == {N}+1 && verifspec.TraceCall({N}, g, arg)
+//@ 	return tr && decided(r, try.Success(g(arg)), again)
+//@ }
+//@ // Map / HListMap: pure continuations m$i.
+//@ func chainMap{N}[<<i=1..N|, |A$i>>, R any](g func(fp.Tuple{N}[<<i=1..N|, |A$i>>]) R, m1 func(hlist.Nil) A1<<i=2..N||, m$i func(A$(i-1)) A$i>>, again fp.Try[R]) bool {
+//@ 	r := Chain{N}(func(<<i=1..N|, |a$i A$i>>) R { return g(as.Tuple{N}(<<i=1..N|, |a$i>>)) })<<i=1..N||.Map(m$i)>>
+//@ 	if !settled(r) {
+//@ 		return false
+//@ 	}
+//@ 	n := verifspec.TraceLen()
+//@ 	if !verifspec.TraceCall(0, m1, hlist.Empty()) {
+//@ 		return false
+//@ 	}
+//@ 	v1 := m1(hlist.Empty())
+//@ 	<<i=2..N|; |if !verifspec.TraceCall($(i-1), m$i, v$(i-1)) { return false }; v$i := m$i(v$(i-1))>>
+//@ 	arg := as.Tuple{N}(<<i=1..N|, |v$i>>)
+//@ 	tr := n == {N}+1 && verifspec.TraceCall({N}, g, arg)
+//@ 	return tr && decided(r, try.Success(g(arg)), again)
+//@ }
+//@ func chainHListMap{N}[<<i=1..N|, |A$i>>, R any](g func(fp.Tuple{N}[<<i=1..N|, |A$i>>]) R, m1 func(hlist.Nil) A1<<i=2..N||, m$i func(<<j=i-1..1|~|hlist.Cons[A$j, >>hlist.Nil<<j=1..i-1||]>>) A$i>>, again fp.Try[R]) bool {
+//@ 	r := Chain{N}(func(<<i=1..N|, |a$i A$i>>) R { return g(as.Tuple{N}(<<i=1..N|, |a$i>>)) })<<i=1..N||.HListMap(m$i)>>
+//@ 	if !settled(r) {
+//@ 		return false
+//@ 	}
+//@ 	n := verifspec.TraceLen()
+//@ 	if !verifspec.TraceCall(0, m1, hlist.Empty()) { return false }; v1 := m1(hlist.Empty())
+//@ 	<<i=2..N|; |h$i := <<j=i-1..1|~|hlist.Concat(v$j, >>hlist.Empty()<<j=1..i-1||)>>; if !verifspec.TraceCall($(i-1), m$i, h$i) { return false }; v$i := m$i(h$i)>>
+//@ 	arg := as.Tuple{N}(<<i=1..N|, |v$i>>)
+//@ 	tr := n == {N}+1 && verifspec.TraceCall({N}, g, arg)
+//@ 	return tr && decided(r, try.Success(g(arg)), again)
+//@ }
+//@ end
+//@ schema end
+//
+//@ schema N=1..5
+//@ lemma futureChain{N}FlatMap[<<i=1..N|, |A$i>>, R any](<<i=1..N|, |t$i fp.Try[A$i]>>, g func(fp.Tuple{N}[<<i=1..N|, |A$i>>]) R, k1 func(hlist.Nil) int<<i=2..N||, k$i func(A$(i-1)) int>>, again fp.Try[R])
+//@   prop C06 C02 C14
+//@   ensures chainFlatMap{N}(<<i=1..N|, |t$i>>, g<<i=1..N||, k$i>>, 0, again)
+//@   tag allCompleteBeforeBuild
+//@   ensures chainFlatMap{N}(<<i=1..N|, |t$i>>, g<<i=1..N||, k$i>>, 1, again)
+//@   tag firstToLast
+//@   ensures chainFlatMap{N}(<<i=1..N|, |t$i>>, g<<i=1..N||, k$i>>, 2, again)
+//@   tag lastToFirst
+//@ schema end
+//
+//@ schema N=6..6
+//@ lemma futureChain{N}FlatMapEnds[<<i=1..N|, |A$i>>, R any](t1 fp.Try[A1], <<i=2..N-1|, |v$i A$i>>, t{N} fp.Try[A{N}], g func(fp.Tuple{N}[<<i=1..N|, |A$i>>]) R, k1 func(hlist.Nil) int<<i=2..N||, k$i func(A$(i-1)) int>>, again fp.Try[R])
+//@   prop C06 C02 C14
+//@   ensures chainFlatMap{N}(t1, <<i=2..N-1|, |try.Success(v$i)>>, t{N}, g<<i=1..N||, k$i>>, 0, again)
+//@   tag allCompleteBeforeBuild
+//@   ensures chainFlatMap{N}(t1, <<i=2..N-1|, |try.Success(v$i)>>, t{N}, g<<i=1..N||, k$i>>, 1, again)
+//@   tag firstToLast
+//@   ensures chainFlatMap{N}(t1, <<i=2..N-1|, |try.Success(v$i)>>, t{N}, g<<i=1..N||, k$i>>, 2, again)
+//@   tag lastToFirst
+//@ schema end
+//
+//@ schema N=1..5
+//@ lemma futureChain{N}HListFlatMap[<<i=1..N|, |A$i>>, R any](<<i=1..N|, |t$i fp.Try[A$i]>>, g func(fp.Tuple{N}[<<i=1..N|, |A$i>>]) R, k1 func(hlist.Nil) int<<i=2..N||, k$i func(<<j=i-1..1|~|hlist.Cons[A$j, >>hlist.Nil<<j=1..i-1||]>>) int>>, again fp.Try[R])
+//@   prop C06 C02 C14
+//@   ensures chainHListFlatMap{N}(<<i=1..N|, |t$i>>, g<<i=1..N||, k$i>>, 0, again)
+//@   tag allCompleteBeforeBuild
+//@   ensures chainHListFlatMap{N}(<<i=1..N|, |t$i>>, g<<i=1..N||, k$i>>, 1, again)
+//@   tag firstToLast
+//@   ensures chainHListFlatMap{N}(<<i=1..N|, |t$i>>, g<<i=1..N||, k$i>>, 2, again)
+//@   tag lastToFirst
+//@ schema end
+//
+//@ schema N=6..6
+//@ lemma futureChain{N}HListFlatMapEnds[<<i=1..N|, |A$i>>, R any](t1 fp.Try[A1], <<i=2..N-1|, |v$i A$i>>, t{N} fp.Try[A{N}], g func(fp.Tuple{N}[<<i=1..N|, |A$i>>]) R, k1 func(hlist.Nil) int<<i=2..N||, k$i func(<<j=i-1..1|~|hlist.Cons[A$j, >>hlist.Nil<<j=1..i-1||]>>) int>>, again fp.Try[R])
+//@   prop C06 C02 C14
+//@   ensures chainHListFlatMap{N}(t1, <<i=2..N-1|, |try.Success(v$i)>>, t{N}, g<<i=1..N||, k$i>>, 0, again)
+//@   tag allCompleteBeforeBuild
+//@   ensures chainHListFlatMap{N}(t1, <<i=2..N-1|, |try.Success(v$i)>>, t{N}, g<<i=1..N||, k$i>>, 1, again)
+//@   tag firstToLast
+//@   ensures chainHListFlatMap{N}(t1, <<i=2..N-1|, |try.Success(v$i)>>, t{N}, g<<i=1..N||, k$i>>, 2, again)
+//@   tag lastToFirst
+//@ schema end
+//
+//@ schema N=1..6
+//@ lemma futureChain{N}Map[<<i=1..N|, |A$i>>, R any](g func(fp.Tuple{N}[<<i=1..N|, |A$i>>]) R, m1 func(hlist.Nil) A1<<i=2..N||, m$i func(A$(i-1)) A$i>>, again fp.Try[R])
+//@   prop C06 C14
+//@   ensures chainMap{N}(g<<i=1..N||, m$i>>, again)
+//@ schema end
+//
+//@ schema N=1..6
+//@ lemma futureChain{N}HListMap[<<i=1..N|, |A$i>>, R any](g func(fp.Tuple{N}[<<i=1..N|, |A$i>>]) R, m1 func(hlist.Nil) A1<<i=2..N||, m$i func(<<j=i-1..1|~|hlist.Cons[A$j, >>hlist.Nil<<j=1..i-1||]>>) A$i>>, again fp.Try[R])
+//@   prop C06 C14
+//@   ensures chainHListMap{N}(g<<i=1..N||, m$i>>, again)
+//@ schema end
+// Mixed chains: the first operand is a future, the later ones pure suppliers x$i($i) (ApFunc) / continuations m$i (Map):
+// none of them is called before the first operand is complete, nor when it has failed.
+//
+//@ schema N=2..9
+//@ ghost
+//@ func applMixed{N}[<<i=1..N|, |A$i>>, R any](t1 fp.Try[A1]<<i=2..N||, x$i func(int) A$i>>, g func(fp.Tuple{N}[<<i=1..N|, |A$i>>]) R, early bool, again fp.Try[R]) bool {
+//@ 	p1 := promise.New[A1]()
+//@ 	if early {
+//@ 		p1.Complete(t1)
+//@ 	}
+//@ 	r := Applicative{N}(func(<<i=1..N|, |a$i A$i>>) R { return g(as.Tuple{N}(<<i=1..N|, |a$i>>)) }).ApFuture(p1.Future())<<i=2..N||.ApFunc(func() A$i { return x$i($i) })>>
+//@ 	verifspec.RunSpawned()
+//@ 	if !early {
+//@ 		if !notYet(r, 0) {
+//@ 			return false
+//@ 		}
+//@ 		p1.Complete(t1)
+//@ 	}
+//@ 	if !settled(r) || p1.Failure(fp.ErrOptionEmpty) {
+//@ 		return false
+//@ 	}
+//@ 	n := verifspec.TraceLen()
+//@ 	if !t1.IsSuccess() {
+//@ 		return n == 0 && decided(r, failed[R](t1), again)
+//@ 	}
+//@ 	<<i=2..N|; |if !verifspec.TraceCall($(i-2), x$i, $i) { return false }>>
+//@ 	arg := as.Tuple{N}(t1.Get()<<i=2..N||, x$i($i)>>)
+//@ 	tr := n == {N} && verifspec.TraceCall({N-1}, g, arg)
+//@ 	return tr && decided(r, try.Success(g(arg)), again)
+//@ }
+//@ end
+//
+//@ lemma futureApplicative{N}Mixed[<<i=1..N|, |A$i>>, R any](t1 fp.Try[A1]<<i=2..N||, x$i func(int) A$i>>, g func(fp.Tuple{N}[<<i=1..N|, |A$i>>]) R, early bool, again fp.Try[R])
+//@   prop C06 C02 C14
+//@   ensures applMixed{N}(t1<<i=2..N||, x$i>>, g, early, again)
+//@ schema end
+//
+//@ schema N=2..5
+//@ ghost
+//@ func chainMixed{N}[<<i=1..N|, |A$i>>, R any](t1 fp.Try[A1]<<i=2..N||, m$i func(A$(i-1)) A$i>>, g func(fp.Tuple{N}[<<i=1..N|, |A$i>>]) R, k1 func(hlist.Nil) int, early bool, again fp.Try[R]) bool {
+//@ 	p1 := promise.New[A1]()
+//@ 	if early {
+//@ 		p1.Complete(t1)
+//@ 	}
+//@ 	r := Chain{N}(func(<<i=1..N|, |a$i A$i>>) R { return g(as.Tuple{N}(<<i=1..N|, |a$i>>)) }).FlatMap(func(h hlist.Nil) fp.Future[A1] { k1(h); return p1.Future() })<<i=2..N||.Map(m$i)>>
+//@ 	verifspec.RunSpawned()
+//@ 	if !early {
+//@ 		if !notYet(r, 1) {
+//@ 			return false
+//@ 		}
+//@ 		p1.Complete(t1)
+//@ 	}
+//@ 	if !settled(r) || p1.Failure(fp.ErrOptionEmpty) {
+//@ 		return false
+//@ 	}
+//@ 	n := verifspec.TraceLen()
+//@ 	if !verifspec.TraceCall(0, k1, hlist.Empty()) {
+//@ 		return false
+//@ 	}
+//@ 	if !t1.IsSuccess() {
+//@ 		return n == 1 && decided(r, failed[R](t1), again)
+//@ 	}
+//@ 	v1 := t1.Get()
+//@ 	<<i=2..N|; |if !verifspec.TraceCall($(i-1), m$i, v$(i-1)) { return false }; v$i := m$i(v$(i-1))>>
+//@ 	arg := as.Tuple{N}(<<i=1..N|, |v$i>>)
+//@ 	tr := n == {N}+1 && verifspec.TraceCall({N}, g, arg)
+//@ 	return tr && decided(r, try.Success(g(arg)), again)
+//@ }
+//@ end
+//
+//@ lemma futureChain{N}Mixed[<<i=1..N|, |A$i>>, R any](t1 fp.Try[A1]<<i=2..N||, m$i func(A$(i-1)) A$i>>, g func(fp.Tuple{N}[<<i=1..N|, |A$i>>]) R, k1 func(hlist.Nil) int, early bool, again fp.Try[R])
+//@   prop C06 C02 C14
+//@   ensures chainMixed{N}(t1<<i=2..N||, m$i>>, g, k1, early, again)
+//@ schema end
